@@ -2,7 +2,7 @@
    the component models and the composition theorem
 
      program_correct : 0 < bs -> domain files -> gate_passed bs files -> complete cap o files sched ->
-                       program_m cap bs sched o files = POk (program_spec o files)
+                       program_m cap bs rps sched o files = POk (program_spec o files)
 
    with its corollaries (block-size independence of the whole output — C12; schedule independence
    of the whole output — C06; summary totals = measures of that output — C19; stripping the
@@ -31,7 +31,22 @@
      evtx_worker_correct, evtx_spec_sorted                C10 evtx_out_correct, spec_events_sorted
      journal_worker_correct                               C09 journal_out_correct_l
      nl_split_lines, kmsg_*_sim                           the printer's wf_msg for event / journal / record messages
-     yearless_instants, yearless_true_instants            C11 walk_length, assign_true_years *)
+     yearless_instants, yearless_true_instants            C11 walk_length, assign_true_years
+   Third stage:
+     journal_emit_spec, journal_spec_sorted               C09 render model (Model/JournalRender.v): next_entry_no_panic_l, src_formats_ok
+     walk_until_prefix, early_stop_spec_eq                C11 theorem 7 (early stop of the year walk), finding F17 excluded by hypothesis
+     ProgramCaches.{plain,streamed}_driver_struct         work package A's driver inductions with "the i-th emitted object represents the
+                                                          i-th selected message at its offset" (find_step, stream_call, drop_try_ok,
+                                                          c_find_between_fw, c_drop_data_try_fw, gate_SFW, c_gate_ok_plain)
+     ssl_ok_parts, repr_msgs, win_scan_at_window          a represented Sysline has non-empty parts; its is_sysline_last flag (last_test);
+                                                          forward scan = window on a chronological file
+     cached_worker_stream, cached_text_worker_correct     the worker over the cached reader machine sends the windowed spec messages
+     ssearch_refines (s_bmatch/s_endgame/... _ref)        the search loop with the reader STATE threaded through (Program.SSearch) = Model/Search.v,
+                                                          invariant J: every call of a search started at fileoffset is at or after fileoffset
+     cached_find_rel, dangling_step, cview_tosl  (A1)     work package A: c_find_sysline_ok, find_step, drop_try_ok, c_gate_ok_plain  =>  the `find`
+                                                          oracle of C03 on a state whose dropped ranges lie before the search's fileoffset
+     cached_win_stream, cached_win_worker_correct         C03 text_out_correct through ssearch_refines: a seekable file WITH a window
+     program_correct (cached), program_pure_correct       finish_correct: coordinator + print site + summary, shared by both *)
 From Coq Require Import List NArith ZArith Bool Arith Lia Sorted Permutation.
 Import ListNotations.
 From S4.Base Require Import Bytes Chunk.
@@ -42,7 +57,11 @@ From S4.Model Require Calendar Year Records RecordRender LayoutDetect Evtx Journ
 From S4.Gen Require FixedStructTables.
 From S4.Model Require Import Program.
 From S4.Proofs Require LinesProofs SyslinesProofs SearchProofs MergeProofs CoordProofs PrintSem PrintVariants PrintStrip SummaryProofs.
-From S4.Proofs Require StableSort RecordsProofs RecordRenderProofs FixedStructTablesOk EvtxProofs JournalWindow YearProofs.
+From S4.Proofs Require StableSort RecordsProofs RecordRenderProofs FixedStructTablesOk EvtxProofs JournalWindow YearProofs JournalRenderBasic JournalRenderCfg.
+From S4.Model Require JournalRender.
+From S4.Gen Require JournalTables.
+From S4.Model Require Caches.
+From S4.Proofs Require CachesProofs CachesSysProofs CachesRunProofs CachesFwdRunProofs ProgramCaches.
 
 
 (* ######################################################################## part 1 *)
@@ -276,6 +295,219 @@ Section Refine2.
     - exact Hlen.
   Qed.
 End Refine2.
+
+
+(* ######################################################################## part 2b *)
+(* the search loop with the reader STATE threaded through (Program.SSearch) against Model/Search.v: every call of
+   a search started at `fileoffset` is at or after `fileoffset` (invariant J), so a reader state that answers every
+   call at or after lo as the layout says (Inv s lo) is enough; drop_data_try of a message that begins before lo
+   keeps it *)
+From S4.Proofs Require SearchProofs.
+Local Open Scope N_scope.
+Section SRefine.
+  Variables (St M : Type) (view : M -> Search.sl) (sfind : St -> N -> St * gfres M) (sdrop : St -> M -> St).
+  Variable P : M -> Prop.
+  Variable gs : list Search.sl.
+  Variable filesz : N.
+  (* the reader state answers every call at or after lo as the layout says *)
+  Variable Inv : St -> N -> Prop.
+  Hypothesis Inv_mono : forall s lo lo', Inv s lo -> lo <= lo' -> Inv s lo'.
+  Hypothesis Hfind : forall s lo fo, Inv s lo -> lo <= fo ->
+    Inv (fst (sfind s fo)) lo /\ frel M view P (snd (sfind s fo)) (Search.find gs fo).
+  Hypothesis Hdrop : forall s lo p, Inv s lo -> P p -> Search.s_beg (view p) <= lo -> Inv (sdrop s p) lo.
+  Hypothesis Hbound : forall fo x, Search.find gs fo = Search.FFound x -> Search.s_next x <= filesz.
+
+  Notation vs := (vs M view).
+  Notation vst := (vst M view).
+
+  Lemma find_next fo x : Search.find gs fo = Search.FFound x -> fo < Search.s_next x.
+  Proof. intro E. destruct (SearchProofs.find_in_split gs fo x E) as (p & r & _ & _ & L). exact L. Qed.
+
+  Definition okm (fo0 : N) (m : M) : Prop := P m /\ fo0 <= Search.s_next (view m) /\ Search.s_next (view m) <= filesz.
+  Definition J (fo0 : N) (st : gbst M) : Prop :=
+    fo0 <= g_try_fo st /\ fo0 <= g_fo_a st /\ fo0 <= g_fo_b st /\
+    match g_last_found st with Some m => okm fo0 m | None => True end.
+  Definition okr' (fo0 : N) (r : gsres M) : Prop :=
+    match r with
+    | GSFound fo m => okm fo0 m /\ fo = Search.s_next (view m)
+    | GSFault _ => False
+    | _ => True
+    end.
+  Definition orel' (fo0 : N) (a : gbout M) (b : Search.bout) : Prop :=
+    match a, b with
+    | GContinue st', Search.Continue x => vst st' = x /\ J fo0 st'
+    | GReturn r, Search.Return x => vs r = x /\ okr' fo0 r
+    | _, _ => False
+    end.
+
+  (* one call of the stateful find at or after the search's fileoffset *)
+  Lemma sfind_at s fo0 fo : Inv s fo0 -> fo0 <= fo ->
+    Inv (fst (sfind s fo)) fo0 /\
+    match snd (sfind s fo), Search.find gs fo with
+    | GFound n m, Search.FFound x => view m = x /\ n = Search.s_next x /\ okm fo0 m
+    | GDone, Search.FDone => True
+    | _, _ => False
+    end.
+  Proof.
+    intros I L. destruct (Hfind s fo0 fo I L) as [I' H]. split; [exact I'|].
+    unfold frel in H. destruct (snd (sfind s fo)) as [n m| |c]; destruct (Search.find gs fo) as [x|] eqn:F; try contradiction; [|exact Logic.I].
+    destruct H as (H1 & H2 & H3). split; [exact H1|]. split; [exact H2|]. subst x.
+    pose proof (find_next _ _ F). pose proof (Hbound _ _ F). unfold okm. repeat split; try assumption; lia.
+  Qed.
+
+  Lemma s_endgame_ref a fo0 done st s : Inv s fo0 -> J fo0 st ->
+    Inv (fst (s_endgame view sfind filesz a done st s)) fo0 /\
+    orel' fo0 (snd (s_endgame view sfind filesz a done st s)) (Search.endgame gs filesz a done (vst st)).
+  Proof.
+    intros I JJ. destruct st as [tf tl fa fb lf]. unfold s_endgame, Search.endgame, ProgramProofs.vst, J in *.
+    cbn [g_try_fo g_try_fo_last g_fo_a g_fo_b g_last_found Search.try_fo Search.try_fo_last
+         Search.fo_a Search.fo_b Search.last_found] in *.
+    destruct (done && (tf =? tl)%N); [cbn; auto|].
+    destruct (negb (tf =? tl)%N); [cbn; auto|].
+    destruct lf as [m|]; cbn [option_map]; [|cbn; auto].
+    destruct JJ as (J1 & J2 & J3 & OKM).
+    unfold g_is_last, Search.is_last.
+    destruct ((Search.s_end (view m) =? filesz - 1)%N && (Search.s_beg (view m) <? tf)%N); [cbn; auto|].
+    destruct (Search.s_beg (view m) <? tf)%N; [|cbn; split; [exact I|]; split; [reflexivity|]; split; [exact OKM|reflexivity]].
+    destruct (sfind_at s fo0 (Search.s_next (view m)) I ltac:(destruct OKM as (_ & X & _); exact X)) as [I' H].
+    destruct (sfind s (Search.s_next (view m))) as [s' r]. cbn [fst snd] in *.
+    destruct r as [fo mn| |c]; destruct (Search.find gs (Search.s_next (view m))) as [x|]; try contradiction; [|cbn; auto].
+    destruct H as (H1 & H2 & H3). subst x. cbn [fst snd]. split; [exact I'|].
+    destruct (Search.dt_after_or_before (Search.s_t (view m)) a);
+      destruct (Search.dt_after_or_before (Search.s_t (view mn)) a); cbn; auto.
+  Qed.
+  Definition mrel' (fo0 : N) (a : (bool * gbst M) + gsres M) (b : (bool * Search.bst) + Search.sres) : Prop :=
+    match a, b with
+    | inl (d, st'), inl (d', x) => d = d' /\ vst st' = x /\ J fo0 st'
+    | inr r, inr x => vs r = x /\ okr' fo0 r
+    | _, _ => False
+    end.
+
+  Lemma s_bmatch_ref a fo0 st s : Inv s fo0 -> J fo0 st ->
+    Inv (fst (s_bmatch view sfind a fo0 s st)) fo0 /\
+    mrel' fo0 (snd (s_bmatch view sfind a fo0 s st)) (Search.bmatch gs a fo0 (vst st)).
+  Proof.
+    intros I JJ. destruct st as [tf tl fa fb lf]. unfold s_bmatch, Search.bmatch, ProgramProofs.vst, J in *.
+    cbn [g_try_fo g_try_fo_last g_fo_a g_fo_b g_last_found Search.try_fo Search.try_fo_last
+         Search.fo_a Search.fo_b Search.last_found] in *.
+    destruct JJ as (J1 & J2 & J3 & OKL).
+    destruct (sfind_at s fo0 tf I J1) as [I' H].
+    destruct (sfind s tf) as [s' r]. cbn [fst snd] in *.
+    destruct r as [fo m| |c]; destruct (Search.find gs tf) as [x|] eqn:F; try contradiction; cbn [fst snd]; (split; [exact I'|]).
+    - destruct H as (H1 & H2 & OKM). subst x fo.
+      pose proof (find_next _ _ F) as NX.
+      destruct (Search.dt_after_or_before (Search.s_t (view m)) a).
+      + cbn. auto.
+      + destruct (tf =? fo0)%N; [cbn; auto|].
+        destruct (N.leb_spec fa (N.min (Search.s_beg (view m)) tf)); cbn -[N.min N.div N.add N.sub N.le]; [|auto].
+        split; [reflexivity|]. split; [reflexivity|].
+        split; [eapply N.le_trans; [exact J2|apply N.le_add_r]|]. split; [exact J2|]. split; [eapply N.le_trans; [exact J2|exact H]|exact OKM].
+      + destruct (N.leb_spec tf (Search.s_end (view m))); cbn -[N.min N.div N.add N.sub N.le]; [|auto].
+        split; [reflexivity|]. split; [reflexivity|].
+        assert (A : fo0 <= N.min (Search.s_end (view m)) fb) by lia.
+        split; [eapply N.le_trans; [exact A|apply N.le_add_r]|]. split; [exact A|]. split; [exact J3|exact OKM].
+    - destruct (N.leb_spec fa fb); cbn -[N.min N.div N.add N.sub N.le]; [|auto].
+      split; [reflexivity|]. split; [reflexivity|].
+      split; [eapply N.le_trans; [exact J2|apply N.le_add_r]|]. split; [exact J2|]. split; [exact J3|exact OKL].
+  Qed.
+
+  Lemma s_bstep_ref a fo0 st s : Inv s fo0 -> J fo0 st ->
+    Inv (fst (s_bstep view sfind filesz a fo0 s st)) fo0 /\
+    orel' fo0 (snd (s_bstep view sfind filesz a fo0 s st)) (Search.bstep gs filesz a fo0 (vst st)).
+  Proof.
+    intros I JJ. unfold s_bstep, Search.bstep.
+    destruct (s_bmatch_ref a fo0 st s I JJ) as [I' H]. unfold mrel' in H.
+    destruct (s_bmatch view sfind a fo0 s st) as [s' [[d st']|r]]; cbn [fst snd] in *;
+      destruct (Search.bmatch gs a fo0 (vst st)) as [[d' x]|x]; try contradiction.
+    - destruct H as (-> & <- & JJ'). apply s_endgame_ref; assumption.
+    - cbn [fst snd]. split; [exact I'|exact H].
+  Qed.
+
+  Lemma s_bloop_ref a fo0 fuel : forall s st, Inv s fo0 -> J fo0 st ->
+    Inv (fst (s_bloop view sfind filesz a fo0 fuel s st)) fo0 /\
+    vs (snd (s_bloop view sfind filesz a fo0 fuel s st)) = Search.bloop gs filesz a fo0 fuel (vst st) /\
+    okr' fo0 (snd (s_bloop view sfind filesz a fo0 fuel s st)).
+  Proof.
+    induction fuel as [|fuel IH]; intros s st I JJ; [cbn; auto|].
+    cbn [s_bloop Search.bloop].
+    destruct (s_bstep_ref a fo0 st s I JJ) as [I' H]. unfold orel' in H.
+    destruct (s_bstep view sfind filesz a fo0 s st) as [s' [st'|r]]; cbn [fst snd] in *;
+      destruct (Search.bstep gs filesz a fo0 (vst st)) as [x|x]; try contradiction.
+    - destruct H as (<- & JJ'). apply IH; assumption.
+    - cbn [fst snd]. split; [exact I'|exact H].
+  Qed.
+
+  Lemma s_find_between_ref a b fo0 s : Inv s fo0 -> fo0 <= filesz ->
+    Inv (fst (s_find_between view sfind filesz a b fo0 s)) fo0 /\
+    vs (snd (s_find_between view sfind filesz a b fo0 s)) = Search.find_between gs filesz false a b fo0 /\
+    okr' fo0 (snd (s_find_between view sfind filesz a b fo0 s)).
+  Proof.
+    intros I L. unfold s_find_between, Search.find_between, Search.find_at, s_bsearch, Search.bsearch.
+    assert (J0 : J fo0 (g_bstart filesz fo0)) by (unfold J, g_bstart; cbn; repeat split; lia).
+    destruct (s_bloop_ref a fo0 (Search.bfuel filesz) s (g_bstart filesz fo0) I J0) as (I' & E & O).
+    change (vst (g_bstart filesz fo0)) with (Search.bstart filesz fo0) in E.
+    rewrite <- E.
+    destruct (s_bloop view sfind filesz a fo0 (Search.bfuel filesz) s (g_bstart filesz fo0)) as [s' r]. cbn [fst snd] in *.
+    destruct r as [fo' m| | | | |]; cbn [fst snd ProgramProofs.vs]; try (split; [exact I'|split; [reflexivity|exact O]]).
+    destruct (Search.dt_pass_filters (Search.s_t (view m)) a b); cbn; auto.
+  Qed.
+
+  Lemma s_stream_ref a b plan fuel : forall i s fo prev,
+    Inv s fo -> fo <= filesz ->
+    match prev with Some p => P p /\ Search.s_beg (view p) <= fo | None => True end ->
+    let r := snd (s_stream view sfind sdrop filesz fuel a b plan i s fo prev) in
+    (map (fun mb => view (fst mb)) (fst r), vstat (snd r)) = Search.stream gs filesz fuel false a b fo /\
+    Forall (fun mb => P (fst mb) /\ snd mb = g_is_last view filesz (fst mb)) (fst r) /\
+    (forall c, snd r <> GFaulted c).
+  Proof.
+    induction fuel as [|fuel IH]; intros i s fo prev I L PV; cbn zeta; [cbn; repeat split; auto; discriminate|].
+    cbn [s_stream Search.stream].
+    destruct (s_find_between_ref a b fo s I L) as (I1 & E & O). rewrite <- E.
+    destruct (s_find_between view sfind filesz a b fo s) as [s1 r1]. cbn [fst snd] in *.
+    destruct r1 as [fo' m| | | | |]; cbn [ProgramProofs.vs okr'] in *;
+      try contradiction; try (cbn; repeat split; auto; discriminate).
+    destruct O as ((PM & LO & HI) & EF). subst fo'.
+    unfold g_is_last in *. unfold Search.is_last.
+    destruct (Search.s_end (view m) =? filesz - 1)%N eqn:LST.
+    - cbn. repeat split; auto; try discriminate.
+    - assert (I1' : Inv s1 (Search.s_next (view m))) by (eapply Inv_mono; [exact I1|exact LO]).
+      set (s2i := match prev with
+                  | Some p => (if Caches.plan_at plan i then sdrop s1 p else s1, S i)
+                  | None => (s1, i)
+                  end).
+      assert (I2 : Inv (fst s2i) (Search.s_next (view m))).
+      { subst s2i. destruct prev as [p|]; cbn [fst]; [|exact I1'].
+        destruct (Caches.plan_at plan i); [|exact I1']. destruct PV as [PP PB]. apply Hdrop; [exact I1'|exact PP|lia]. }
+      destruct s2i as [s2 i2]. cbn [fst] in I2.
+      assert (PV' : P m /\ Search.s_beg (view m) <= Search.s_next (view m)) by (split; [exact PM|unfold Search.s_next; lia]).
+      specialize (IH i2 s2 (Search.s_next (view m)) (Some m) I2 HI PV'). cbn zeta in IH.
+      destruct (s_stream view sfind sdrop filesz fuel a b plan i2 s2 (Search.s_next (view m)) (Some m)) as [s3 [out st]].
+      cbn [fst snd] in *. destruct IH as (IH1 & IH2 & IH3). rewrite <- IH1. cbn [map fst snd].
+      repeat split; auto.
+  Qed.
+
+  Hypothesis Hlen : (Search.lfuel gs <= g_lfuel filesz)%nat.
+
+  Lemma ssearch_refines a b plan s0 out : Inv s0 0 ->
+    Search.text_out gs filesz false a b = (out, Search.Ok) ->
+    exists ms, snd (s_stream view sfind sdrop filesz (g_lfuel filesz) a b plan 0 s0 0 None) = (ms, GOk) /\
+               map (fun mb => view (fst mb)) ms = out /\
+               Forall (fun mb => P (fst mb) /\ snd mb = g_is_last view filesz (fst mb)) ms.
+  Proof.
+    intros I0 T. unfold Search.text_out in T.
+    pose proof (s_stream_ref a b plan (g_lfuel filesz) 0%nat s0 0 None I0 (N.le_0_l _) Logic.I) as H. cbn zeta in H.
+    destruct (snd (s_stream view sfind sdrop filesz (g_lfuel filesz) a b plan 0 s0 0 None)) as [ms st]. cbn [fst snd] in H.
+    destruct H as (H1 & H2 & H3).
+    rewrite (stream_mono gs filesz false a b (S (length gs)) 0%N (g_lfuel filesz)) in H1.
+    - rewrite T in H1. inversion H1 as [[E1 E2]].
+      exists ms. split; [|split; [reflexivity|exact H2]]. f_equal.
+      destruct st; cbn in E2; try discriminate; reflexivity.
+    - rewrite T. discriminate.
+    - exact Hlen.
+  Qed.
+End SRefine.
+
+Local Close Scope N_scope.
 
 
 (* ######################################################################## part 3 *)
@@ -683,6 +915,297 @@ Section Reader.
       + eapply Forall_impl; [|exact E3]. intros mb [[_ Q] _]. exact Q.
   Qed.
 End Reader.
+
+
+(* ######################################################################## part 4b *)
+(* ================================================================ A1 over the CACHED reader machine *)
+
+Lemma filter_all {A} (p : A -> bool) l : (forall x, In x l -> p x = true) -> filter p l = l.
+Proof.
+  induction l as [|x l IH]; intro HA; [reflexivity|]. cbn. rewrite (HA x (or_introl eq_refl)).
+  f_equal. apply IH. intros y HY. apply HA. right. exact HY.
+Qed.
+
+Section CachedReader.
+  Variable dated : list N -> option Z.
+
+  (* a stored line that represents a line of the file is a chain of non-empty slices *)
+  Lemma consec_parts bs (f : file) lns : forall b e1, CachesSysProofs.consec bs f lns b e1 ->
+    Forall (line_parts_ok bs f) (map Caches.sl_parts lns).
+  Proof.
+    induction lns as [|s lns IH]; intros b e1 C; [constructor|].
+    destruct C as (e & S & C). cbn [map]. constructor; [|eapply IH; exact C].
+    destruct (CachesProofs.line_ok_facts bs f _ _ _ S) as (B & _ & _ & NE).
+    destruct S as [SP CH]. destruct SP as (A1 & A2 & _).
+    split; [exact NE|]. split; [|eauto].
+    eapply chain_parts_nonempty; [exact CH|lia].
+  Qed.
+
+  Lemma ssl_ok_parts bs (f : file) s b g : CachesSysProofs.ssl_ok bs f s b g ->
+    Forall (line_parts_ok bs f) (snd (Caches.ss_sysline s)) /\ snd (Caches.ss_sysline s) <> [].
+  Proof.
+    intros (_ & _ & C & NE). unfold Caches.ss_sysline. cbn [snd]. split.
+    - eapply consec_parts. exact C.
+    - destruct (Caches.ss_lines s); [congruence|discriminate].
+  Qed.
+
+  (* what the worker sends for the emitted objects: the represented messages, each flagged iff it ends the file *)
+  Lemma repr_msgs bs (f : file) : 0 < bs -> forall sls bgs, ProgramCaches.repr_at bs f sls bgs ->
+    Forall (fun bg : N * group => In bg (syslines_at dated f)) bgs ->
+    map (fun s => (SyslinesProofs.obs_sysline bs f (Caches.ss_sysline s),
+                   Syslines.is_sysline_last bs f (Caches.ss_sysline s))) sls
+      = map (fun x : N * group => (snd x, fst x + glen (snd x) =? lenN f)) bgs /\
+    Forall (fun s => Forall (line_parts_ok bs f) (snd (Caches.ss_sysline s)) /\ snd (Caches.ss_sysline s) <> []) sls.
+  Proof.
+    intros H sls bgs R. induction R as [|s [b g] sls bgs OK _ IH]; intro IN; [split; constructor|].
+    inversion IN as [|? ? I1 I2]; subst. destruct (IH I2) as [E1 E2]. cbn [fst snd] in *. split.
+    - cbn [map fst snd]. rewrite E1. f_equal.
+      destruct (CachesSysProofs.is_group_pos dated f _ _ I1) as (P & LE & _).
+      rewrite (CachesRunProofs.last_test bs f H _ _ _ OK P LE).
+      pose proof (CachesRunProofs.sobs_ok bs f _ _ _ OK) as SO. unfold CachesRunProofs.sobs in SO. rewrite SO. reflexivity.
+    - constructor; [|exact E2]. eapply ssl_ok_parts. exact OK.
+  Qed.
+
+  Lemma win_scan_at_in fa fb l : forall x, In x (ProgramCaches.win_scan_at fa fb l) -> In x l.
+  Proof.
+    induction l as [|y l IH]; intros x; cbn; [tauto|].
+    destruct (Caches.dt_before fa (fst (snd y))); [intro HI; right; apply IH; exact HI|].
+    destruct (Caches.dt_after fb (fst (snd y))); [intros []|].
+    intros [E|HI]; [left; exact E|right; apply IH; exact HI].
+  Qed.
+
+  (* on a chronological list the forward scan selects exactly the window *)
+  Lemma win_scan_at_window fa fb (l : list (N * group)) :
+    nondecreasing (fun x : N * group => fst (snd x)) l = true ->
+    ProgramCaches.win_scan_at fa fb l = filter (fun x : N * group => in_window fa fb (fst (snd x))) l.
+  Proof.
+    induction l as [|x r IH]; intro ND; [reflexivity|].
+    assert (ND' : nondecreasing (fun x : N * group => fst (snd x)) r = true).
+    { cbn in ND. destruct r as [|y r']; [reflexivity|]. apply andb_true_iff in ND as [_ X]. exact X. }
+    specialize (IH ND'). cbn [ProgramCaches.win_scan_at filter]. unfold in_window at 1.
+    assert (B1 : Caches.dt_before fa (fst (snd x)) = negb (geq_lo fa (fst (snd x)))).
+    { destruct fa as [a|]; cbn; [|reflexivity]. destruct (Z.ltb_spec (fst (snd x)) a); destruct (Z.leb_spec a (fst (snd x))); try lia; reflexivity. }
+    assert (B2 : Caches.dt_after fb (fst (snd x)) = negb (leq_hi fb (fst (snd x)))).
+    { destruct fb as [b|]; cbn; [|reflexivity]. destruct (Z.ltb_spec b (fst (snd x))); destruct (Z.leb_spec (fst (snd x)) b); try lia; reflexivity. }
+    rewrite B1, B2. destruct (geq_lo fa (fst (snd x))); cbn [negb andb]; [|exact IH].
+    destruct (leq_hi fb (fst (snd x))) eqn:LH; cbn [negb]; [rewrite IH; reflexivity|].
+    destruct fb as [b|]; [|discriminate]. cbn in LH. apply Z.leb_gt in LH. symmetry.
+    clear IH B1 B2 ND'. revert x ND LH. induction r as [|y r IHr]; intros x ND LH; [reflexivity|].
+    cbn in ND. apply andb_true_iff in ND as [X ND2]. apply Z.leb_le in X. cbn [filter].
+    unfold in_window at 1, leq_hi. destruct (Z.leb_spec (fst (snd y)) b); [lia|]. rewrite andb_false_r.
+    apply (IHr y).
+    - exact ND2.
+    - lia.
+  Qed.
+
+  (* the messages the cached worker sends for one file: exactly the windowed spec groups with their
+     is-last flags, each Sysline assembled from non-empty parts *)
+  Lemma cached_worker_stream bs rp (f : file) streamed a b : 0 < bs ->
+    file_chronological dated f -> file_msgs_2bytes dated f -> first_byte_ok dated f ->
+    cached_case a b streamed = true ->
+    exists sls, snd (cached_driver dated bs rp a b streamed f) = Lines.Found sls /\
+      map (fun s => (SyslinesProofs.obs_sysline bs f (Caches.ss_sysline s),
+                     Syslines.is_sysline_last bs f (Caches.ss_sysline s))) sls = spec_file_msgs dated a b f /\
+      Forall (fun s => Forall (line_parts_ok bs f) (snd (Caches.ss_sysline s)) /\ snd (Caches.ss_sysline s) <> []) sls.
+  Proof.
+    intros H CH L2 FB CC.
+    assert (L1 : Forall (fun g => 1 <= glen g) (syslines dated f)).
+    { eapply Forall_impl; [|exact L2]. intros g G. cbn beta in G. unfold glen. lia. }
+    assert (ML : map (fun x : N * group => (snd x, fst x + glen (snd x) =? lenN f)) (syslines_at dated f)
+                 = mark_last (syslines dated f)).
+    { unfold syslines_at. apply flags_mark_last; [exact L1|]. apply file_size. }
+    assert (NDA : nondecreasing (fun x : N * group => fst (snd x)) (syslines_at dated f) = true).
+    { unfold syslines_at. rewrite nondecreasing_offsets. exact CH. }
+    assert (SPEC : forall bgs, bgs = filter (fun x : N * group => in_window a b (fst (snd x))) (syslines_at dated f) ->
+              map (fun x : N * group => (snd x, fst x + glen (snd x) =? lenN f)) bgs = spec_file_msgs dated a b f).
+    { intros bgs ->. unfold spec_file_msgs. rewrite <- ML, filter_map_comm. reflexivity. }
+    unfold cached_driver. destruct streamed.
+    - destruct (ProgramCaches.streamed_driver_struct dated (rp_ck rp) bs f (rp_k1 rp) (rp_k2 rp) a b (rp_plan rp) H FB) as (sls & E & R).
+      exists sls. split; [exact E|].
+      rewrite (win_scan_at_window a b _ NDA) in R.
+      destruct (repr_msgs bs f H _ _ R) as [M P].
+      { apply Forall_forall. intros x HX. apply filter_In in HX. tauto. }
+      split; [|exact P]. rewrite M. apply SPEC. reflexivity.
+    - cbn in CC. destruct a; [discriminate|]. destruct b; [discriminate|].
+      destruct (ProgramCaches.plain_driver_struct dated bs f (rp_k1 rp) (rp_k2 rp) (rp_plan rp) H FB) as (sls & E & R).
+      exists sls. split; [exact E|].
+      destruct (repr_msgs bs f H _ _ R) as [M P].
+      { apply Forall_forall. intros x HX. exact HX. }
+      split; [|exact P]. rewrite M. apply SPEC.
+      symmetry. apply filter_all. intros x _. reflexivity.
+  Qed.
+
+  (* ---------------------------------------------------------------- a seekable file WITH a window:
+     the binary search threaded through the cached machine (Program.SSearch, ssearch_refines) *)
+
+  (* the state is sound (work package A's rinv) and every range whose Sysline was dropped ends at or before lo *)
+  Definition cinv bs (f : file) (st : Caches.sr_state) (lo : N) : Prop :=
+    @CachesRunProofs.rinv dated bs f (CachesProofs.lr_inv bs f) st /\ CachesRunProofs.dangling_behind st lo.
+  (* a stored Sysline that represents a message of the file *)
+  Definition cP bs (f : file) (s : Caches.ssl) : Prop :=
+    exists b g, CachesSysProofs.is_group dated f b g /\ CachesSysProofs.ssl_ok bs f s b g.
+
+  Lemma cview_tosl bs (f : file) s b g : 0 < bs -> CachesSysProofs.ssl_ok bs f s b g ->
+    CachesSysProofs.is_group dated f b g -> cview bs f s = tosl (b, g).
+  Proof.
+    intros H OK G. destruct (CachesSysProofs.is_group_pos dated f _ _ G) as (P & _).
+    destruct (CachesSysProofs.ssl_ok_facts bs f H _ _ _ OK P) as (BG & _ & _).
+    unfold cview, tosl. rewrite BG. cbn [fst snd]. f_equal.
+    - pose proof (CachesRunProofs.sobs_ok bs f _ _ _ OK) as SO. unfold CachesRunProofs.sobs, SyslinesProofs.obs_sysline in SO.
+      unfold Syslines.sysline_bytes, glen, group_bytes. rewrite <- SO. reflexivity.
+    - destruct OK as (D & _). exact D.
+  Qed.
+
+  (* a find_sysline call leaves the dropped ranges where they are *)
+  Lemma dangling_step bs (f : file) st st' r x : CachesSysProofs.sys_step dated bs f st st' r ->
+    CachesRunProofs.dangling_behind st x -> CachesRunProofs.dangling_behind st' x.
+  Proof.
+    intros ST D. destruct ST as [[E1 E2]|(n & s & b & g & _ & G & OK & _ & E1 & E2)].
+    - intros a' b' v. rewrite E1, E2. apply D.
+    - intros a' b' v. rewrite E1, E2. rewrite CachesProofs.alookup_ainsert. unfold Caches.range_insert.
+      destruct (CachesSysProofs.is_group_pos dated f _ _ G) as (P & _). destruct (N.ltb_spec b (b + CachesSysProofs.glen g)); [|lia].
+      intros [IN|IN] LK.
+      + inversion IN; subst. rewrite N.eqb_refl in LK. discriminate.
+      + destruct (N.eqb_spec v b); [discriminate|].
+        destruct (CachesSysProofs.In_range_cut _ _ _ _ IN) as (s0 & e0 & v0 & IN0 & [[E _]|[E _]]); inversion E; subst;
+          specialize (D _ _ _ IN0 LK); lia.
+  Qed.
+
+  (* ADAPTER A1 over the cached machine: a find_sysline call at or after lo, on a sound state whose dropped ranges lie
+     before lo, IS the find oracle of Model/Search.v (work package A: c_find_sysline_ok, find_step) *)
+  Lemma cached_find_rel bs (f : file) st lo fo : 0 < bs -> cinv bs f st lo -> lo <= fo ->
+    cinv bs f (fst (cached_find dated bs f st fo)) lo /\
+    frel Caches.ssl (cview bs f) (cP bs f) (snd (cached_find dated bs f st fo)) (Search.find (gs_of dated f) fo).
+  Proof.
+    intros H [RI DG] L. unfold cached_find.
+    destruct (Caches.c_find_sysline dated bs f st fo) as [[st' r] p] eqn:CF.
+    destruct (CachesRunProofs.find_step dated bs f H _ _ _ _ _ RI CF) as (RI' & R & NP).
+    destruct (CachesSysProofs.c_find_sysline_ok dated bs f H _ _ _ _ _ (proj1 RI) CF) as (_ & _ & ST & _).
+    pose proof (dangling_step bs f _ _ _ lo ST DG) as DG'.
+    assert (DGfo : CachesRunProofs.dangling_behind st fo) by (eapply CachesRunProofs.dangling_mono; [exact DG|exact L]).
+    destruct (NP DGfo) as [NPanic _].
+    unfold Search.find. rewrite gs_of_tosl.
+    pose proof (pick_find fo (syslines_at dated f)) as PF.
+    destruct r as [[n s]| | |]; cbn in R.
+    - destruct R as (b & g & G & OK & SP). unfold spec_find_sysline in SP. rewrite SP in PF. destruct PF as [PF1 PF2].
+      destruct (CachesSysProofs.is_group_pos dated f _ _ G) as (P & _).
+      destruct (CachesSysProofs.ssl_ok_facts bs f H _ _ _ OK P) as (BG & _ & _). rewrite BG.
+      cbn [fst snd]. split; [split; assumption|]. unfold frel. rewrite PF1.
+      split; [apply cview_tosl; assumption|]. split; [rewrite PF2; reflexivity|]. exists b, g. split; assumption.
+    - unfold spec_find_sysline in R. rewrite R in PF. cbn [fst snd]. split; [split; assumption|]. unfold frel. rewrite PF. exact I.
+    - contradiction.
+    - congruence.
+  Qed.
+
+  Lemma cached_win_stream bs rp (f : file) a b : 0 < bs ->
+    file_chronological dated f -> file_msgs_2bytes dated f -> first_byte_ok dated f ->
+    exists ms, snd (cached_win_driver dated bs rp a b f) = (ms, GOk) /\
+      map (fun mb : Caches.ssl * bool => (SyslinesProofs.obs_sysline bs f (Caches.ss_sysline (fst mb)), snd mb)) ms
+        = spec_file_msgs dated a b f /\
+      Forall (fun mb : Caches.ssl * bool => Forall (line_parts_ok bs f) (snd (Caches.ss_sysline (fst mb))) /\
+                                            snd (Caches.ss_sysline (fst mb)) <> []) ms.
+  Proof.
+    intros H CH L2 FB.
+    assert (L1 : Forall (fun g => 1 <= glen g) (syslines dated f)).
+    { eapply Forall_impl; [|exact L2]. intros g G. cbn beta in G. unfold glen. lia. }
+    set (lead := first_dated_offset dated f). set (GS := syslines dated f) in *.
+    set (SA := syslines_at dated f).
+    assert (T : Search.text_out (gs_of dated f) (lenN f) false a b = (window Search.s_t a b (gs_of dated f), Search.Ok)).
+    { pose proof (SearchProofs.text_out_correct lead (lay_of GS) false a b) as T.
+      unfold Search.l_text_out in T. unfold lead, GS in T. rewrite fsize_gs in T. apply T.
+      - fold (gs_of dated f). rewrite gs_of_tosl, nondecreasing_map.
+        unfold syslines_at. cbn [tosl Search.s_t]. rewrite nondecreasing_offsets. exact CH.
+      - unfold lay_of. apply Forall_map. exact L2. }
+    assert (HN : (Search.lfuel (gs_of dated f) <= g_lfuel (lenN f))%nat).
+    { unfold Search.lfuel, g_lfuel. rewrite gs_of_tosl, map_length. unfold syslines_at.
+      rewrite with_offsets_length.
+      pose proof (length_le_total _ L1) as Q1. pose proof (file_size dated f) as Q2. fold GS in Q2.
+      fold GS. lia. }
+    destruct (CachesGateProofs.c_gate_ok_plain dated bs f H FB (rp_k1 rp) (rp_k2 rp)) as (RI0 & ND0 & _).
+    destruct (ssearch_refines Caches.sr_state Caches.ssl (cview bs f) (cached_find dated bs f) (Caches.c_drop_data_try bs)
+                (cP bs f) (gs_of dated f) (lenN f) (cinv bs f)) with (a := a) (b := b) (plan := rp_plan rp)
+                (s0 := Caches.c_gate dated (rp_k1 rp) (rp_k2 rp) bs f Caches.sr_init) (out := window Search.s_t a b (gs_of dated f))
+      as (ms & E1 & E2 & E3).
+    - intros s lo lo' [RI DG] LE. split; [exact RI|]. eapply CachesRunProofs.dangling_mono; eassumption.
+    - intros s lo fo IV LE. apply cached_find_rel; assumption.
+    - intros s lo p [RI DG] (pb & pg & PG & POK) LE.
+      rewrite (cview_tosl bs f p pb pg H POK PG) in LE. cbn [tosl Search.s_beg fst] in LE.
+      destruct (CachesRunProofs.drop_try_ok dated bs f H (CachesRunProofs.lr_inv_drop bs f) s lo p pb pg RI POK PG LE) as (RI' & DG').
+      split; [exact RI'|exact (DG' DG)].
+    - intros fo x F. unfold Search.find in F. rewrite gs_of_tosl in F.
+      destruct (SearchProofs.find_in_split _ _ _ F) as (pre & post & EQ & _).
+      assert (IN : In x (map tosl (syslines_at dated f))) by (rewrite EQ; apply in_or_app; right; left; reflexivity).
+      apply in_map_iff in IN as ([bx gx] & <- & IN). pose proof (offsets_le _ _ _ IN) as LE.
+      pose proof (file_size dated f) as FS. unfold Search.s_next. cbn [tosl Search.s_beg Search.s_len fst snd] in *.
+      unfold syslines_at in IN. clear -LE FS. lia.
+    - exact HN.
+    - split; [exact RI0|exact ND0].
+    - exact T.
+    - exists ms. unfold cached_win_driver. split; [exact E1|].
+      rewrite gs_of_tosl in E2. unfold window in E2. rewrite filter_map_comm in E2. fold SA in E2.
+      set (X := filter (fun x => in_window a b (Search.s_t (tosl x))) SA) in *.
+      assert (XS : forall x, In x X -> In x SA) by (intros x HX; apply filter_In in HX; tauto).
+      assert (HELP : forall X ms, (forall x, In x X -> In x SA) ->
+                map (fun mb : Caches.ssl * bool => cview bs f (fst mb)) ms = map tosl X ->
+                Forall (fun mb : Caches.ssl * bool => cP bs f (fst mb) /\ snd mb = g_is_last (cview bs f) (lenN f) (fst mb)) ms ->
+                map (fun mb : Caches.ssl * bool => (SyslinesProofs.obs_sysline bs f (Caches.ss_sysline (fst mb)), snd mb)) ms =
+                map (fun x : N * group => (snd x, fst x + glen (snd x) =? lenN f)) X /\
+                Forall (fun mb : Caches.ssl * bool => Forall (line_parts_ok bs f) (snd (Caches.ss_sysline (fst mb))) /\
+                                                      snd (Caches.ss_sysline (fst mb)) <> []) ms).
+      { clear X XS E1 E2 E3 ms T. induction X as [|x X IH]; intros [|mb ms] XS E2 E3; try discriminate; [split; constructor|].
+        cbn [map] in *. pose proof (f_equal (hd (tosl x)) E2) as V. pose proof (f_equal (@tl _) E2) as E2'. cbn [hd tl] in V, E2'.
+        clear E2. inversion E3 as [|? ? [(pb & pg & PG & POK) FL] E3']; subst.
+        destruct (IH ms (fun y HY => XS y (or_intror HY)) E2' E3') as [IH1 IH2].
+        assert (IN : In x SA) by (apply XS; left; reflexivity).
+        rewrite (cview_tosl bs f _ pb pg H POK PG) in V.
+        assert (EB : pb = fst x) by (inversion V; reflexivity). subst pb.
+        assert (EG : pg = snd x).
+        { apply (CachesSysProofs.is_group_unique dated f (fst x)); [exact PG|]. destruct x; exact IN. }
+        subst pg. split.
+        - f_equal; [|exact IH1]. f_equal.
+          + pose proof (CachesRunProofs.sobs_ok bs f _ _ _ POK) as SO. exact SO.
+          + rewrite FL. unfold g_is_last, Search.s_end. rewrite (cview_tosl bs f _ _ _ H POK PG).
+            cbn [tosl Search.s_beg Search.s_len fst snd].
+            destruct (CachesSysProofs.is_group_pos dated f _ _ PG) as (P1 & P2 & _).
+            change (CachesSysProofs.glen (snd x)) with (glen (snd x)) in *.
+            destruct (N.eqb_spec (fst x + glen (snd x) - 1) (lenN f - 1)); destruct (N.eqb_spec (fst x + glen (snd x)) (lenN f)); try reflexivity; lia.
+        - constructor; [|exact IH2]. eapply ssl_ok_parts. exact POK. }
+      destruct (HELP X ms XS E2 E3) as [M1 M2]. split; [|exact M2].
+      rewrite M1. unfold spec_file_msgs. fold GS.
+      rewrite <- (flags_mark_last GS L1 lead (lenN f) (file_size dated f)).
+      fold (with_offsets lead GS). change (with_offsets lead GS) with SA.
+      rewrite filter_map_comm. reflexivity.
+  Qed.
+End CachedReader.
+
+
+(* two sufficient conditions for the oracle hypothesis of block-zero analysis *)
+Lemma slice_heads (f : file) b e : b < lenN f -> b <= e ->
+  exists c r, In c f /\ slice f b (b + 1) = [c] /\ slice f b (e + 1) = c :: r.
+Proof.
+  intros L LE. unfold slice. pose proof (lenN_skipnN f b) as LS. pose proof (firstnN_skipnN_app f b) as AP.
+  destruct (skipnN b f) as [|c r] eqn:SK; [cbn in LS; lia|].
+  assert (IN : In c f) by (rewrite <- AP; apply in_or_app; right; left; reflexivity).
+  replace (b + 1 - b) with 1 by lia. unfold firstnN.
+  destruct (N.to_nat (e + 1 - b)) as [|k] eqn:K; [lia|].
+  exists c, (firstn k r). split; [exact IN|]. split; reflexivity.
+Qed.
+
+Lemma first_byte_ok_head dated (f : file) :
+  (forall c r r', dated (c :: r) = dated (c :: r')) -> first_byte_ok dated f.
+Proof.
+  intros HD b z L _ D. destruct (line_end_lt f b L) as [LE _].
+  destruct (slice_heads f b (line_end f b) L LE) as (c & r & _ & E1 & E2).
+  rewrite E2. rewrite E1 in D. rewrite <- D. apply HD.
+Qed.
+
+Lemma first_byte_ok_undated dated (f : file) :
+  (forall c, In c f -> dated [c] = None) -> first_byte_ok dated f.
+Proof.
+  intros HN b z L _ D. destruct (line_end_lt f b L) as [LE _].
+  destruct (slice_heads f b (line_end f b) L LE) as (c & r & IN & E1 & E2).
+  rewrite E1, (HN c IN) in D. discriminate.
+Qed.
 
 
 (* ######################################################################## part 5 *)
@@ -1344,36 +1867,376 @@ Section EvtxKind.
 End EvtxKind.
 
 (* ---------------------------------------------------------------- journals *)
+Lemma sorted_app_Z (l1 l2 : list Z) : StronglySorted Z.le l1 -> StronglySorted Z.le l2 ->
+  (forall x y, In x l1 -> In y l2 -> (x <= y)%Z) -> StronglySorted Z.le (l1 ++ l2).
+Proof.
+  induction 1 as [|x l1 S IH F]; intros S2 H; [exact S2|]. cbn [app]. constructor.
+  - apply IH; [exact S2|]. intros a b Ha Hb. apply H; [right; exact Ha|exact Hb].
+  - apply Forall_app. split; [exact F|]. apply Forall_forall. intros y Hy. apply H; [left; reflexivity|exact Hy].
+Qed.
+
+(* 0 or 1 (or more) outputs per element, each carrying the element's key: sortedness is kept *)
+Lemma sorted_flat_map {A B} (key : A -> Z) (kb : B -> Z) (g : A -> list B) l :
+  StronglySorted Z.le (map key l) -> (forall x y, In y (g x) -> kb y = key x) ->
+  StronglySorted Z.le (map kb (flat_map g l)).
+Proof.
+  intros S K. induction l as [|x l IH]; [constructor|]. cbn [map] in S. inversion S as [|? ? S' F]; subst.
+  cbn [flat_map]. rewrite map_app. apply sorted_app_Z.
+  - assert (E : forall ys, (forall y, In y ys -> kb y = key x) -> StronglySorted Z.le (map kb ys)).
+    { induction ys as [|y ys IHy]; intro Hy; [constructor|]. cbn [map]. constructor.
+      - apply IHy. intros z Hz. apply Hy. right. exact Hz.
+      - apply Forall_forall. intros z Hz. apply in_map_iff in Hz as (w & <- & Hw).
+        rewrite (Hy y (or_introl eq_refl)), (Hy w (or_intror Hw)). lia. }
+    apply E. intros y Hy. apply K. exact Hy.
+  - apply IH. exact S'.
+  - intros a b Ha Hb. apply in_map_iff in Ha as (y & <- & Hy). rewrite (K _ _ Hy).
+    apply in_map_iff in Hb as (z & <- & Hz). apply in_flat_map in Hz as (x' & Hx' & Hz).
+    rewrite (K _ _ Hz). rewrite Forall_forall in F. apply F. apply in_map. exact Hx'.
+Qed.
+
+Lemma nondecreasing_strongly (l : list Z) : Journal.nondecreasing l -> StronglySorted Z.le l.
+Proof.
+  induction l as [|x r IH]; intro H; [constructor|]. destruct H as [H1 H2]. specialize (IH H2).
+  constructor; [exact IH|]. destruct r as [|y r]; [constructor|].
+  inversion IH as [|? ? S F]; subst. constructor; [exact H1|].
+  eapply Forall_impl; [|exact F]. intros z Hz. cbn beta in Hz. lia.
+Qed.
+
 Section JournalKind.
   Variable O : oracles.
   Hypothesis Hspan : span_ok (o_dtspan O).
 
+  (* the receive time is what every rendering of the current source shows (DT_USES_SOURCE_OVERRIDE) *)
+  Lemma jentry_inst_time e : jentry_inst e = (Journal.e_time e * 1000)%Z.
+  Proof. reflexivity. Qed.
+
+  Lemma journal_emit_spec o es :
+    journal_emit O o es =
+    (flat_map (fun e => match JournalRender.next_entry JournalTables.src_cfg (op_jenv o) (op_jout o) e with
+                        | JournalRender.NFound t => [journal_msg O e t]
+                        | _ => []
+                        end) es, GOk).
+  Proof.
+    induction es as [|e r IH]; [reflexivity|]. cbn [journal_emit flat_map].
+    pose proof (JournalRenderBasic.next_entry_no_panic_l JournalTables.src_cfg (op_jenv o) (op_jout o) e JournalRenderCfg.src_formats_ok) as NP.
+    destruct (JournalRender.next_entry JournalTables.src_cfg (op_jenv o) (op_jout o) e) as [t| |]; [| |congruence].
+    - rewrite IH. reflexivity.
+    - rewrite IH. reflexivity.
+  Qed.
+
   Lemma journal_worker_correct o j pf : pf_kind pf = KJournalFile j -> src_ok O o pf ->
-    journal_worker O (op_after o) (op_before o) j = (journal_spec O (op_after o) (op_before o) j, GOk).
+    journal_worker O o j = (journal_spec O o j, GOk).
   Proof.
     intros K S. unfold src_ok in S. rewrite K in S. destruct S as (J1 & ND & VR & BA & BB & _).
     unfold journal_worker, journal_spec.
-    rewrite (JournalWindow.journal_out_correct_l _ _ J1 j _ _ ND VR BA BB). reflexivity.
+    rewrite (JournalWindow.journal_out_correct_l _ _ J1 j _ _ ND VR BA BB). apply journal_emit_spec.
   Qed.
 
   Lemma journal_spec_sim o j pf : pf_kind pf = KJournalFile j -> src_ok O o pf ->
-    Forall (fun mb : Print.msg * bool => msg_sim (fst mb) (fst mb)) (journal_spec O (op_after o) (op_before o) j).
+    Forall (fun mb : Print.msg * bool => msg_sim (fst mb) (fst mb)) (journal_spec O o j).
   Proof.
-    intros K S. unfold src_ok in S. rewrite K in S. destruct S as (_ & _ & _ & _ & _ & T & _).
-    unfold journal_spec. apply Forall_map. apply Forall_forall. intros e He.
+    intros K S. unfold src_ok in S. rewrite K in S. destruct S as (_ & _ & _ & _ & _ & T).
+    unfold journal_spec. apply Forall_forall. intros mb Hmb. apply in_flat_map in Hmb as (e & He & Hmb).
     unfold JournalSpec.window in He. apply filter_In in He as [He _].
-    unfold journal_msg. cbn [fst]. apply kmsg_lines_sim; [exact Hspan|right; reflexivity|].
-    rewrite Forall_forall in T. exact (T e He).
+    rewrite Forall_forall in T. specialize (T e He).
+    destruct (JournalRender.next_entry JournalTables.src_cfg (op_jenv o) (op_jout o) e) as [t| |]; [|destruct Hmb|destruct Hmb].
+    destruct Hmb as [<-|[]]. unfold journal_msg. cbn [fst]. apply kmsg_lines_sim; [exact Hspan|right; reflexivity|exact T].
   Qed.
 
   Lemma journal_spec_sorted o j pf i : pf_kind pf = KJournalFile j -> src_ok O o pf ->
-    StronglySorted Z.le (map ev_t (mk_events i (journal_spec O (op_after o) (op_before o) j))).
+    StronglySorted Z.le (map ev_t (mk_events i (journal_spec O o j))).
   Proof.
-    intros K S. unfold src_ok in S. rewrite K in S. destruct S as (_ & _ & _ & _ & _ & _ & SO).
-    rewrite ev_t_mk_events. unfold journal_spec. rewrite map_map. exact SO.
+    intros K S. unfold src_ok in S. rewrite K in S. destruct S as (_ & ND & _).
+    rewrite ev_t_mk_events. unfold journal_spec.
+    apply (sorted_flat_map (fun e => (Journal.e_time e * 1000)%Z)).
+    - unfold JournalSpec.window.
+      apply (sorted_map_filter (fun e => (Journal.e_time e * 1000)%Z)).
+      apply nondecreasing_strongly in ND. unfold Journal.times in ND.
+      clear -ND. induction j as [|e r IH]; [constructor|]. cbn [map] in *. inversion ND as [|? ? S F]; subst.
+      constructor; [apply IH; exact S|]. rewrite Forall_forall in *. intros z Hz. apply in_map_iff in Hz as (y & <- & Hy).
+      assert (Journal.e_time e <= Journal.e_time y)%Z by (apply F; apply in_map; exact Hy). lia.
+    - intros e mb Hmb.
+      destruct (JournalRender.next_entry JournalTables.src_cfg (op_jenv o) (op_jout o) e) as [t| |]; [|destruct Hmb|destruct Hmb].
+      destruct Hmb as [<-|[]]. reflexivity.
   Qed.
 End JournalKind.
 
+
+(* ######################################################################## part 7b: year-less text logs (C11) *)
+(* "the datetime window and the cross-file merge use the inferred dates": the spec groups of a
+   year-less file under the derived oracle [yl_dated] are the groups found with "a year-less
+   pattern matches the line", and their instants are, message by message, the ones
+   Year.assign_years (process_missing_year, C11) infers — provided equal head lines do not occur
+   twice (the oracle is a function of the line's bytes). *)
+
+(* the instant of a group is what the oracle says of its head line; grouping depends only on WHICH
+   lines are dated *)
+Lemma groups_heads d ls : Forall (fun g : group => d (hd [] (snd g)) = Some (fst g)) (snd (groups d ls)).
+Proof.
+  induction ls as [|l r IH]; [constructor|]. rewrite SyslinesProofs.groups_cons.
+  destruct (d l) eqn:D; cbn [snd]; [|exact IH]. constructor; [exact D|exact IH].
+Qed.
+
+Lemma groups_same_lines d1 d2 ls : (forall l, In l ls -> (d1 l = None <-> d2 l = None)) ->
+  fst (groups d1 ls) = fst (groups d2 ls) /\ map snd (snd (groups d1 ls)) = map snd (snd (groups d2 ls)).
+Proof.
+  induction ls as [|l r IH]; intro H; [split; reflexivity|].
+  destruct IH as [I1 I2]; [intros x Hx; apply H; right; exact Hx|].
+  rewrite !SyslinesProofs.groups_cons. pose proof (H l (or_introl eq_refl)) as HL.
+  destruct (d1 l) eqn:D1; destruct (d2 l) eqn:D2; cbn [fst snd map].
+  - rewrite I1, I2. split; reflexivity.
+  - exfalso. destruct HL as [_ HL]. specialize (HL eq_refl). discriminate.
+  - exfalso. destruct HL as [HL _]. specialize (HL eq_refl). discriminate.
+  - rewrite I1, I2. split; reflexivity.
+Qed.
+
+Lemma assoc_combine_nth (ks : list bytes) : NoDup ks -> forall (vs : list Z) k (d : bytes),
+  (k < length ks)%nat -> length vs = length ks ->
+  assoc (nth k ks d) (combine ks vs) = Some (nth k vs 0%Z).
+Proof.
+  induction 1 as [|x ks NI ND IH]; intros vs k d L E; [cbn in L; lia|].
+  destruct vs as [|v vs]; [discriminate|]. cbn [combine assoc]. destruct k as [|k].
+  - cbn [nth]. rewrite beqb_refl. reflexivity.
+  - cbn [nth]. destruct (beqb (nth k ks d) x) eqn:B.
+    + exfalso. apply beqb_eq in B. apply NI. rewrite <- B. apply nth_In. cbn in L. lia.
+    + apply IH; cbn in L, E; lia.
+Qed.
+
+Section Yearless.
+  Variable O : oracles.
+
+  Lemma heads_dated (f : file) : Forall (fun h => o_ydate O h <> None) (yl_heads O f).
+  Proof.
+    unfold yl_heads. apply Forall_map. pose proof (groups_heads (ydated0 O) (lines f)) as H.
+    unfold syslines. eapply Forall_impl; [|exact H]. intros g E. unfold ydated0 in E.
+    destruct (o_ydate O (hd [] (snd g))); [discriminate|discriminate].
+  Qed.
+
+  Lemma yl_msgs_length (f : file) : length (yl_msgs O f) = length (yl_heads O f).
+  Proof.
+    unfold yl_msgs. pose proof (heads_dated f) as H. induction H as [|h r Hh _ IH]; [reflexivity|].
+    cbn [flat_map]. destruct (o_ydate O h); [|congruence]. cbn. rewrite IH. reflexivity.
+  Qed.
+
+  (* a table built from the head lines and ANY list of as many instants: the groups are those of
+     "a year-less pattern matches the line" and their instants are the listed ones, in order *)
+  Lemma table_instants (f : file) (vs : list Z) :
+    length vs = length (yl_heads O f) -> NoDup (yl_heads O f) ->
+    map snd (syslines (yl_dated O (combine (yl_heads O f) vs)) f) = map snd (syslines (ydated0 O) f) /\
+    map fst (syslines (yl_dated O (combine (yl_heads O f) vs)) f) = vs.
+  Proof.
+    intros LEN ND. set (tab := combine (yl_heads O f) vs).
+    (* every line a year-less pattern matches is a head, hence in the table *)
+    assert (INH : forall l, In l (lines f) -> o_ydate O l <> None -> In l (yl_heads O f)).
+    { intros l. unfold yl_heads, syslines. generalize (lines f) as ls. induction ls as [|x r IH]; intros I D; [destruct I|].
+      rewrite SyslinesProofs.groups_cons. unfold ydated0 at 1.
+      destruct I as [<-|I].
+      - destruct (o_ydate O x); [|congruence]. cbn. left. reflexivity.
+      - destruct (o_ydate O x); cbn [option_map snd map]; [right|]; apply IH; assumption. }
+    assert (TAB : forall k, (k < length (yl_heads O f))%nat ->
+                  yl_dated O tab (nth k (yl_heads O f) []) = Some (nth k vs 0%Z)).
+    { intros k L. unfold yl_dated. pose proof (heads_dated f) as HD. rewrite Forall_forall in HD.
+      destruct (o_ydate O (nth k (yl_heads O f) [])) eqn:D; [|exfalso; eapply HD; [apply nth_In; exact L|exact D]].
+      apply assoc_combine_nth; assumption. }
+    assert (SAME : forall l, In l (lines f) -> (yl_dated O tab l = None <-> ydated0 O l = None)).
+    { intros l I. unfold ydated0. split.
+      - intro E. destruct (o_ydate O l) eqn:D; [|reflexivity]. exfalso.
+        assert (IH : In l (yl_heads O f)) by (apply INH; [exact I|congruence]).
+        destruct (In_nth _ _ [] IH) as (k & L & EK). rewrite <- EK in E. rewrite (TAB k L) in E. discriminate.
+      - unfold yl_dated. destruct (o_ydate O l); [discriminate|reflexivity]. }
+    destruct (groups_same_lines (yl_dated O tab) (ydated0 O) (lines f) SAME) as [_ G2].
+    split; [exact G2|].
+    (* instants: group k's head is head k *)
+    pose proof (groups_heads (yl_dated O tab) (lines f)) as GH. fold (syslines (yl_dated O tab) f) in GH.
+    assert (HE : map (fun g : group => hd [] (snd g)) (syslines (yl_dated O tab) f) = yl_heads O f).
+    { assert (MM : forall l : list group, map (fun g : group => hd ([] : list N) (snd g)) l
+                                          = map (@hd (list N) []) (map (@snd Z (list (list N))) l))
+        by (intro l; rewrite map_map; reflexivity).
+      unfold yl_heads. rewrite !MM. unfold syslines. rewrite G2. reflexivity. }
+    apply (nth_ext _ _ 0%Z 0%Z).
+    - rewrite map_length, LEN, <- HE, map_length. reflexivity.
+    - intros k L. rewrite map_length in L.
+      assert (LK : (k < length (yl_heads O f))%nat) by (rewrite <- HE, map_length; exact L).
+      rewrite Forall_forall in GH.
+      pose proof (GH (nth k (syslines (yl_dated O tab) f) (0%Z, [])) (nth_In _ _ L)) as E.
+      assert (HK : hd [] (snd (nth k (syslines (yl_dated O tab) f) (0%Z, []))) = nth k (yl_heads O f) []).
+      { rewrite <- HE. symmetry.
+        exact (map_nth (fun g : group => hd ([] : list N) (snd g)) (syslines (yl_dated O tab) f) (0%Z, []) k). }
+      rewrite HK, (TAB k LK) in E. inversion E as [E1].
+      rewrite E1. exact (map_nth (@fst Z (list (list N))) (syslines (yl_dated O tab) f) (0%Z, []) k).
+  Qed.
+
+
+  Lemma assign_years_length fuel off Y ms ys : Year.assign_years fuel off Y ms = Some ys -> length ys = length ms.
+  Proof.
+    unfold Year.assign_years. destruct (Year.walk fuel off Y None (rev ms)) as [l|] eqn:W; [|discriminate].
+    cbn. intro H. inversion H; subst. rewrite rev_length, (YearProofs.walk_length _ _ _ _ _ _ W), rev_length. reflexivity.
+  Qed.
+
+  Theorem yearless_instants off mtime (f : file) ys :
+    Year.assign_years 2 off (Year.year_of_seconds off mtime) (yl_msgs O f) = Some ys ->
+    NoDup (yl_heads O f) ->
+    yl_table O off mtime f = Some (combine (yl_heads O f) (map snd ys)) /\
+    map snd (syslines (yl_dated O (combine (yl_heads O f) (map snd ys))) f) = map snd (syslines (ydated0 O) f) /\
+    map fst (syslines (yl_dated O (combine (yl_heads O f) (map snd ys))) f) = map snd ys.
+  Proof.
+    intros AY ND. split; [unfold yl_table; rewrite AY; reflexivity|].
+    apply table_instants; [|exact ND].
+    rewrite map_length, (assign_years_length _ _ _ _ _ AY). apply yl_msgs_length.
+  Qed.
+
+  (* with C11's theorem 5: when the true (year, message) sequence of the file satisfies C11's gap
+     hypothesis and the modification time lies in the last message's year, the instants the
+     window and the merge use are the TRUE instants *)
+  Corollary yearless_true_instants off mtime (f : file) (tm : list (Z * Year.ymsg)) :
+    YearProofs.seq_ok off tm -> map snd tm = yl_msgs O f ->
+    Year.year_of_seconds off mtime = fst (last tm (0%Z, Year.mkMsg 0 0 0)) ->
+    NoDup (yl_heads O f) ->
+    exists tab, yl_table O off mtime f = Some tab /\
+      map fst (syslines (yl_dated O tab) f) = map (YearProofs.instant_of off) tm.
+  Proof.
+    intros SQ MS YR ND.
+    pose proof (YearProofs.assign_true_years_lemma off tm SQ) as AY. rewrite <- YR, MS in AY.
+    destruct (yearless_instants off mtime f _ AY ND) as (T & _ & I).
+    eexists. split; [exact T|]. rewrite I, map_map. reflexivity.
+  Qed.
+End Yearless.
+
+
+(* ######################################################################## part 7c: the early stop of the year walk *)
+(* process_missing_year stops at the first message (from the end) that lies before --dt-after
+   (C11 theorem 7: the walked messages get the years of the full walk); the messages above keep the
+   filler year.  When the window does not reach back to the filler dates (finding F17 excluded)
+   the specification under the stopped walk and under the full walk select the same messages. *)
+Lemma walk_until_prefix a fuel off : forall rms year prev l,
+  Year.walk fuel off year prev rms = Some l ->
+  exists k, walk_until a fuel off year prev rms = Some (firstn k l) /\ (k <= length l)%nat /\
+            ((k < length l)%nat -> exists av yt, a = Some av /\ (0 < k)%nat /\ nth_error l (k - 1) = Some yt /\ (snd yt < av)%Z).
+Proof.
+  induction rms as [|m r IH]; intros year prev l W; cbn [Year.walk] in W.
+  - inversion W; subst. exists 0%nat. cbn. split; [reflexivity|]. split; [lia|]. intro H; inversion H.
+  - cbn [walk_until]. destruct (Year.redate fuel off year prev m) as [y t| |]; try discriminate.
+    destruct (Year.walk fuel off y (Some t) r) as [l'|] eqn:W'; [|discriminate]. cbn in W. inversion W; subst l. clear W.
+    destruct (IH _ _ _ W') as (k' & E & LE & ST).
+    assert (GO : exists k, option_map (cons (y, t)) (walk_until a fuel off y (Some t) r) = Some (firstn k ((y, t) :: l')) /\
+                 (k <= length ((y, t) :: l'))%nat /\
+                 ((k < length ((y, t) :: l'))%nat -> exists av yt, a = Some av /\ (0 < k)%nat /\ nth_error ((y, t) :: l') (k - 1) = Some yt /\ (snd yt < av)%Z)).
+    { exists (S k'). rewrite E. cbn [option_map firstn length]. split; [reflexivity|]. split; [lia|].
+      intro L. destruct (ST ltac:(lia)) as (av & yt & A & P & N & LT). exists av, yt. split; [exact A|]. split; [lia|]. split; [|exact LT].
+      replace (S k' - 1)%nat with (S (k' - 1)) by lia. exact N. }
+    destruct a as [av|]; [|exact GO].
+    destruct (Z.ltb_spec t av); [|exact GO].
+    exists 1%nat. cbn [firstn length]. split; [reflexivity|]. split; [lia|].
+    intros _. exists av, (y, t). repeat split; [lia|exact H].
+Qed.
+
+Lemma combine_fst_snd {A B} (l : list (A * B)) : l = combine (map fst l) (map snd l).
+Proof. induction l as [|[a b] l IH]; [reflexivity|]. cbn. f_equal. exact IH. Qed.
+
+Lemma mark_last_app {A} (X Y : list A) : Y <> [] ->
+  mark_last (X ++ Y) = map (fun x => (x, false)) X ++ mark_last Y.
+Proof.
+  intro NE. induction X as [|x X IH]; [reflexivity|]. cbn [app mark_last map].
+  destruct (X ++ Y) as [|z r] eqn:E; [destruct X; [cbn in E; congruence|discriminate]|].
+  rewrite <- IH. reflexivity.
+Qed.
+
+Lemma combine_app {A B} (a1 a2 : list A) (b1 b2 : list B) : length a1 = length b1 ->
+  combine (a1 ++ a2) (b1 ++ b2) = combine a1 b1 ++ combine a2 b2.
+Proof.
+  revert b1. induction a1 as [|x a1 IH]; intros [|y b1] L; try discriminate; [reflexivity|].
+  cbn. f_equal. apply IH. cbn in L. lia.
+Qed.
+
+Lemma sorted_firstn_le (l : list Z) m d : StronglySorted Z.le l -> (m < length l)%nat ->
+  Forall (fun x => (x <= nth m l d)%Z) (firstn m l).
+Proof.
+  revert m. induction l as [|x l IH]; intros m S L; [cbn in L; lia|].
+  destruct m as [|m]; [constructor|]. inversion S as [|? ? S' F]; subst. cbn [firstn nth]. constructor.
+  - rewrite Forall_forall in F. apply F. apply nth_In. cbn in L. lia.
+  - apply IH; [exact S'|cbn in L; lia].
+Qed.
+
+Section EarlyStop.
+  Variable O : oracles.
+
+  Lemma early_stop_spec_eq (o : options) off mtime (f : file) tab tes :
+    yl_table O off mtime f = Some tab -> file_ok (yl_dated O tab) f ->
+    yl_table_es O (op_after o) off mtime f = Some tes ->
+    NoDup (yl_heads O f) ->
+    (forall av, op_after o = Some av ->
+       forall w, walk_until (op_after o) 2 off (Year.year_of_seconds off mtime) None (rev (yl_msgs O f)) = Some w ->
+       Forall (fun m => (filler_inst off m < av)%Z) (firstn (length (yl_msgs O f) - length w) (yl_msgs O f))) ->
+    text_spec (yl_dated O tes) (o_dtspan O) (op_after o) (op_before o) f =
+    text_spec (yl_dated O tab) (o_dtspan O) (op_after o) (op_before o) f.
+  Proof.
+    intros TB (CH & _) TE ND F17.
+    unfold yl_table in TB. destruct (Year.assign_years 2 off (Year.year_of_seconds off mtime) (yl_msgs O f)) as [ys|] eqn:AY; [|discriminate].
+    inversion TB; subst tab. clear TB.
+    set (ms := yl_msgs O f) in *. set (Y := Year.year_of_seconds off mtime) in *. set (a := op_after o) in *.
+    pose proof (assign_years_length _ _ _ _ _ AY) as LYS. fold ms in LYS.
+    unfold Year.assign_years in AY. destruct (Year.walk 2 off Y None (rev ms)) as [l|] eqn:W; [|discriminate].
+    cbn in AY. inversion AY; subst ys. clear AY. rewrite rev_length in LYS.
+    destruct (walk_until_prefix a 2 off _ _ _ _ W) as (k & WU & KL & ST).
+    unfold yl_table_es, es_instants in TE. fold ms Y a in TE. rewrite WU in TE. inversion TE; subst tes. clear TE.
+    rewrite firstn_length, (Nat.min_l _ _ KL) in *.
+    set (n := length ms) in *. rewrite LYS in KL, ST.
+    set (FI := map snd (rev l)).
+    assert (LFI : length FI = n) by (unfold FI; rewrite map_length, rev_length; exact LYS).
+    assert (RV : map snd (rev (firstn k l)) = skipn (n - k) FI).
+    { unfold FI. rewrite skipn_map. f_equal. rewrite skipn_rev. rewrite LYS.
+      replace (n - (n - k))%nat with k by lia. reflexivity. }
+    rewrite RV.
+    assert (LH : length (yl_heads O f) = n) by (unfold n, ms; symmetry; apply yl_msgs_length).
+    (* the two group lists *)
+    destruct (table_instants O f FI ltac:(lia) ND) as [S2 F2].
+    assert (LTS : length (map (filler_inst off) (firstn (n - k) ms) ++ skipn (n - k) FI) = length (yl_heads O f)).
+    { rewrite app_length, map_length, firstn_length, skipn_length. unfold n in *. lia. }
+    destruct (table_instants O f _ LTS ND) as [S1 F1].
+    set (G1 := syslines (yl_dated O (combine (yl_heads O f) (map (filler_inst off) (firstn (n - k) ms) ++ skipn (n - k) FI))) f) in *.
+    set (G2 := syslines (yl_dated O (combine (yl_heads O f) FI)) f) in *.
+    unfold text_spec, spec_file_msgs. fold G1 G2. f_equal.
+    destruct (Nat.eq_dec k n) as [->|NK].
+    - (* the walk reached the first message: the same table *)
+      replace (n - n)%nat with 0%nat in * by lia. cbn [firstn map app skipn] in *.
+      rewrite (combine_fst_snd G1), (combine_fst_snd G2), F1, F2, S1, S2. reflexivity.
+    - destruct (ST ltac:(lia)) as (av & yt & A & KP & NT & LT).
+      set (LS := map snd G2) in *.
+      assert (LLS : length LS = n).
+      { unfold LS. rewrite map_length, <- (map_length fst G2), F2. exact LFI. }
+      set (m := (n - k)%nat) in *.
+      assert (SPL : forall (X1 X2 : list Z), length X1 = m ->
+                combine (X1 ++ X2) LS = combine X1 (firstn m LS) ++ combine X2 (skipn m LS)).
+      { intros X1 X2 L1. rewrite <- (firstn_skipn m LS) at 1. apply combine_app. rewrite firstn_length. lia. }
+      assert (E1 : G1 = combine (map (filler_inst off) (firstn m ms)) (firstn m LS) ++ combine (skipn m FI) (skipn m LS)).
+      { rewrite (combine_fst_snd G1), F1, S1, <- S2. apply SPL. rewrite map_length, firstn_length. unfold n, m in *. lia. }
+      assert (E2 : G2 = combine (firstn m FI) (firstn m LS) ++ combine (skipn m FI) (skipn m LS)).
+      { rewrite (combine_fst_snd G2) at 1. rewrite F2. rewrite <- (firstn_skipn m FI) at 1. apply SPL. rewrite firstn_length. lia. }
+      assert (NEY : combine (skipn m FI) (skipn m LS) <> []).
+      { intro E. apply (f_equal (@length _)) in E. rewrite combine_length, !skipn_length in E. cbn in E. unfold m in E. lia. }
+      rewrite E1, E2, !(mark_last_app _ _ NEY), !filter_app. f_equal.
+      (* every message the walk did not reach is before the bound, under the filler date and under the inferred one *)
+      assert (OUT : forall (X : list group), Forall (fun g => (fst g < av)%Z) X ->
+                    filter (fun gl : group * bool => in_window a (op_before o) (fst (fst gl))) (map (fun x => (x, false)) X) = []).
+      { intros X HX. induction HX as [|g X Hg _ IH]; [reflexivity|]. cbn [map filter fst]. rewrite IH.
+        unfold in_window, geq_lo. rewrite A. destruct (Z.leb_spec av (fst g)); [lia|reflexivity]. }
+      rewrite !OUT; [reflexivity| |].
+      + (* inferred instants: the file is chronological and the stop message lies before the bound *)
+        assert (SFI : StronglySorted Z.le FI).
+        { rewrite <- F2. apply nondecreasing_sorted. exact CH. }
+        assert (NTH : nth m FI 0%Z = snd yt).
+        { unfold FI. change 0%Z with (@snd Z Z (0%Z, 0%Z)). rewrite map_nth. f_equal.
+          rewrite rev_nth by (rewrite LYS; unfold m; lia). rewrite LYS.
+          replace (n - S m)%nat with (k - 1)%nat by (unfold m; lia).
+          apply nth_error_nth. exact NT. }
+        pose proof (sorted_firstn_le FI m 0%Z SFI ltac:(rewrite LFI; unfold m; lia)) as LEQ. rewrite NTH in LEQ.
+        apply Forall_forall. intros [t ls] Hg. apply in_combine_l in Hg. rewrite Forall_forall in LEQ. specialize (LEQ _ Hg). cbn [fst]. lia.
+      + specialize (F17 av A _ WU).
+        assert (LW : length (firstn k l) = k) by (rewrite firstn_length; lia). rewrite LW in F17. fold n m in F17.
+        apply Forall_forall. intros [t ls] Hg. apply in_combine_l in Hg. apply in_map_iff in Hg as (x & <- & Hx).
+        rewrite Forall_forall in F17. cbn [fst]. apply F17. exact Hx.
+  Qed.
+End EarlyStop.
 
 (* ######################################################################## part 8: text kinds, dispatch, the theorem *)
 
@@ -1422,6 +2285,51 @@ Section TextKind.
     split; [reflexivity|]. split; [reflexivity|]. apply pmsg_sim; assumption.
   Qed.
 
+  (* the same worker over the cached reader machine (Model/Caches.v): the same messages *)
+  Lemma cached_text_worker_correct bs rp a b streamed (f : file) i : (0 < bs)%N -> file_ok dated f ->
+    first_byte_ok dated f -> cached_case a b streamed = true ->
+    Gate.gate dated bs f = Gate.FileOk ->
+    exists out, cached_text_worker dated dtspan bs rp a b streamed f = (out, GOk) /\
+                Forall2 ev_sim (mk_events i out) (mk_events i (text_spec dated dtspan a b f)).
+  Proof.
+    intros H (CH & L2) FB CC G. unfold cached_text_worker. rewrite G.
+    destruct (cached_worker_stream dated bs rp f streamed a b H CH L2 FB CC) as (sls & E1 & E2 & E3).
+    rewrite E1. eexists. split; [reflexivity|].
+    unfold text_spec. rewrite <- E2. clear E1 E2.
+    induction sls as [|s sls IH]; [constructor|].
+    inversion E3 as [|? ? [OK NEL] E3']; subst. cbn [map mk_events]. constructor; [|apply IH; exact E3'].
+    unfold ev_sim, cmsg_of. cbn [Summary.e_src Summary.e_is_last Summary.e_msg fst snd].
+    split; [reflexivity|]. split; [reflexivity|]. apply pmsg_sim; assumption.
+  Qed.
+
+  (* a seekable file with a window: the binary search threaded through the cached machine, with the drops *)
+  Lemma cached_win_worker_correct bs rp a b (f : file) i : (0 < bs)%N -> file_ok dated f ->
+    first_byte_ok dated f -> Gate.gate dated bs f = Gate.FileOk ->
+    exists out, cached_win_worker dated dtspan bs rp a b f = (out, GOk) /\
+                Forall2 ev_sim (mk_events i out) (mk_events i (text_spec dated dtspan a b f)).
+  Proof.
+    intros H (CH & L2) FB G. unfold cached_win_worker. rewrite G.
+    destruct (cached_win_stream dated bs rp f a b H CH L2 FB) as (ms & E1 & E2 & E3).
+    rewrite E1. eexists. split; [reflexivity|].
+    unfold text_spec. rewrite <- E2. clear E1 E2.
+    induction ms as [|mb ms IH]; [constructor|].
+    inversion E3 as [|? ? [OK NEL] E3']; subst. cbn [map mk_events]. constructor; [|apply IH; exact E3'].
+    unfold ev_sim. cbn [Summary.e_src Summary.e_is_last Summary.e_msg fst snd].
+    split; [reflexivity|]. split; [reflexivity|]. apply pmsg_sim; assumption.
+  Qed.
+
+  Lemma text_worker_c_correct bs rp a b streamed (f : file) i : (0 < bs)%N -> file_ok dated f ->
+    first_byte_ok dated f -> Gate.gate dated bs f = Gate.FileOk ->
+    exists out, text_worker_c dated dtspan bs rp a b streamed f = (out, GOk) /\
+                Forall2 ev_sim (mk_events i out) (mk_events i (text_spec dated dtspan a b f)).
+  Proof.
+    intros H OK FB G. unfold text_worker_c. destruct (cached_case a b streamed) eqn:CC.
+    - apply cached_text_worker_correct; assumption.
+    - apply cached_win_worker_correct; assumption.
+  Qed.
+
+  (* the two reader machines send the same messages (up to line parts: the blocks a line spans are the same,
+     so in fact the same parts; only the simulation is needed) *)
   Lemma text_spec_sorted a b (f : file) i : file_ok dated f ->
     StronglySorted Z.le (map ev_t (mk_events i (text_spec dated dtspan a b f))).
   Proof.
@@ -1456,16 +2364,18 @@ Section Main.
   Variable O : oracles.
 
   (* ---- one worker of any kind *)
-  Lemma worker_correct bs o i pf : (0 < bs)%N -> span_ok (o_dtspan O) -> src_ok O o pf ->
-    gate_passed O bs [pf] ->
-    exists out, worker_out O bs o pf = (out, GOk) /\
+  Lemma worker_pure_correct bs o i pf : (0 < bs)%N -> span_ok (o_dtspan O) -> src_ok O o pf ->
+    gate_passed O bs o [pf] ->
+    exists out, worker_pure O bs o pf = (out, GOk) /\
                 Forall2 ev_sim (mk_events i out) (spec_file_events O o i pf).
   Proof.
     intros H SP S G. inversion G as [|? ? G1 _]; subst. clear G.
-    unfold worker_out, spec_file_events, spec_out. unfold src_ok in S. cbv zeta.
+    unfold worker_pure, spec_file_events, spec_out. unfold src_ok in S. cbv zeta.
     destruct (pf_kind pf) as [|off mt|hint lname|recs|j] eqn:K.
-    - apply text_worker_correct; assumption.
-    - destruct S as (tab & TB & OK). rewrite TB. apply text_worker_correct; [exact SP|exact H|exact OK|]. apply G1. exact TB.
+    - destruct S as [S _]. apply text_worker_correct; assumption.
+    - destruct S as ((tab & TB & OKF) & (tes & TE & OKE) & ND & F17). rewrite TE, TB.
+      rewrite <- (early_stop_spec_eq O o off mt (pf_data pf) tab tes TB OKF TE ND F17).
+      apply text_worker_correct; [exact SP|exact H|exact OKE|]. exact (G1 _ TE).
     - assert (S' : src_ok O o pf) by (unfold src_ok; rewrite K; exact S).
       rewrite (records_worker_correct O o hint lname (pf_data pf) pf K eq_refl S').
       eexists. split; [reflexivity|]. apply mk_events_sim. eapply records_spec_sim; eassumption.
@@ -1475,13 +2385,27 @@ Section Main.
       eexists. split; [reflexivity|]. apply mk_events_sim. eapply journal_spec_sim; eassumption.
   Qed.
 
+  (* the worker as the code runs it: text files over the cached reader machine *)
+  Lemma worker_correct bs rp o i pf : (0 < bs)%N -> span_ok (o_dtspan O) -> src_ok O o pf ->
+    gate_passed O bs o [pf] ->
+    exists out, worker_out O bs rp o pf = (out, GOk) /\
+                Forall2 ev_sim (mk_events i out) (spec_file_events O o i pf).
+  Proof.
+    intros H SP S G. unfold worker_out.
+    destruct (pf_kind pf) as [|off mt|hint lname|recs|j] eqn:K;
+      try (apply worker_pure_correct; assumption).
+    inversion G as [|? ? G1 _]; subst. rewrite K in G1.
+    unfold spec_file_events, spec_out. unfold src_ok in S. rewrite K in *. cbv zeta.
+    destruct S as [S FB]. apply text_worker_c_correct; assumption.
+  Qed.
+
   Lemma spec_source_sorted o i pf : src_ok O o pf ->
     StronglySorted Z.le (map ev_t (spec_file_events O o i pf)).
   Proof.
     intro S. unfold spec_file_events, spec_out. cbv zeta.
     destruct (pf_kind pf) as [|off mt|hint lname|recs|j] eqn:K.
-    - unfold src_ok in S. rewrite K in S. apply text_spec_sorted. exact S.
-    - unfold src_ok in S. rewrite K in S. destruct S as (tab & TB & OK). rewrite TB. apply text_spec_sorted. exact OK.
+    - unfold src_ok in S. rewrite K in S. apply text_spec_sorted. exact (proj1 S).
+    - unfold src_ok in S. rewrite K in S. destruct S as ((tab & TB & OK) & _). rewrite TB. apply text_spec_sorted. exact OK.
     - eapply records_spec_sorted; eassumption.
     - apply evtx_spec_sorted.
     - eapply journal_spec_sorted; eassumption.
@@ -1499,18 +2423,36 @@ Section Main.
     - eapply journal_spec_sim; eassumption.
   Qed.
 
-  Lemma workers_correct bs o files : (0 < bs)%N -> span_ok (o_dtspan O) ->
-    Forall (src_ok O o) files -> gate_passed O bs files ->
-    forall i, exists EC, workers O bs o i files = inl EC /\
+  Lemma workers_of_correct bs o (W : nat -> pfile -> list (Print.msg * bool) * gstatus) files :
+    (forall i pf, src_ok O o pf -> gate_passed O bs o [pf] ->
+       exists out, W i pf = (out, GOk) /\ Forall2 ev_sim (mk_events i out) (spec_file_events O o i pf)) ->
+    Forall (src_ok O o) files -> gate_passed O bs o files ->
+    forall i, exists EC, workers_of W i files = inl EC /\
                          Forall2 (Forall2 ev_sim) EC (spec_sources_from O o i files).
   Proof.
-    intros H SP. induction files as [|pf files IH]; intros F G i.
+    intros HW. induction files as [|pf files IH]; intros F G i.
     - exists []. split; [reflexivity|constructor].
     - inversion F as [|? ? F1 F2]; subst. inversion G as [|? ? G1 G2]; subst.
-      destruct (worker_correct bs o i pf H SP F1 (Forall_cons _ G1 (Forall_nil _))) as (out & W & SM).
+      destruct (HW i pf F1 (Forall_cons _ G1 (Forall_nil _))) as (out & W1 & SM).
       destruct (IH F2 G2 (S i)) as (EC & WS & SS).
-      cbn [workers spec_sources_from]. rewrite W, WS.
+      cbn [workers_of spec_sources_from]. rewrite W1, WS.
       exists (mk_events i out :: EC). split; [reflexivity|]. constructor; assumption.
+  Qed.
+
+  Lemma workers_pure_correct bs o files : (0 < bs)%N -> span_ok (o_dtspan O) ->
+    Forall (src_ok O o) files -> gate_passed O bs o files ->
+    forall i, exists EC, workers_pure O bs o i files = inl EC /\
+                         Forall2 (Forall2 ev_sim) EC (spec_sources_from O o i files).
+  Proof.
+    intros H SP. apply workers_of_correct. intros i pf S G. apply worker_pure_correct; assumption.
+  Qed.
+
+  Lemma workers_correct bs rps o files : (0 < bs)%N -> span_ok (o_dtspan O) ->
+    Forall (src_ok O o) files -> gate_passed O bs o files ->
+    forall i, exists EC, workers O bs rps o i files = inl EC /\
+                         Forall2 (Forall2 ev_sim) EC (spec_sources_from O o i files).
+  Proof.
+    intros H SP. apply workers_of_correct. intros i pf S G. apply worker_correct; assumption.
   Qed.
 
   Lemma sim_tags EC EVS : Forall2 (Forall2 ev_sim) EC EVS -> tags_of EC = tags_of EVS.
@@ -1528,15 +2470,15 @@ Section Main.
     apply spec_source_sorted. exact F1.
   Qed.
 
-  Theorem program_correct cap bs sched o files :
-    (0 < bs)%N -> domain O o files -> gate_passed O bs files ->
+  (* coordinator + print site + summary on worker outputs that simulate the spec sources *)
+  Lemma finish_correct cap sched o files EC :
+    Forall (src_ok O o) files ->
+    Forall2 (Forall2 ev_sim) EC (spec_sources O o files) ->
     complete O cap o files sched ->
-    program_m O cap bs sched o files = POk (program_spec O o files).
+    finish cap sched o files (inl EC) = POk (program_spec O o files).
   Proof.
-    intros H (SP & F) G (s' & RUN & FIN).
-    destruct (workers_correct bs o files H SP F G 0%nat) as (EC & W & S).
-    fold (spec_sources O o files) in S.
-    unfold program_m. rewrite W, (sim_tags _ _ S), RUN, FIN.
+    intros F S (s' & RUN & FIN).
+    unfold finish. rewrite (sim_tags _ _ S), RUN, FIN.
     set (EVS := spec_sources O o files) in *.
     assert (R : Coord.reachable cap (tags_of EVS) s').
     { eapply CoordProofs.reachable_run; [constructor|exact RUN]. }
@@ -1551,6 +2493,36 @@ Section Main.
     unfold program_spec. fold EVS. unfold spec_events. fold EVS.
     rewrite (run_totals_sim _ _ _ _ SS), (run_stdout_sim _ _ _ _ SS). reflexivity.
   Qed.
+
+  (* THE COMPOSITION THEOREM, text readers with their caches (for every reader parameter: number of
+     in-block calls of block-zero analysis, drop plan) *)
+  Theorem program_correct cap bs rps sched o files :
+    (0 < bs)%N -> domain O o files -> gate_passed O bs o files ->
+    complete O cap o files sched ->
+    program_m O cap bs rps sched o files = POk (program_spec O o files).
+  Proof.
+    intros H (SP & F) G C.
+    destruct (workers_correct bs rps o files H SP F G 0%nat) as (EC & W & S).
+    unfold program_m. rewrite W. apply finish_correct; assumption.
+  Qed.
+
+  (* ... and with every text file over the pure block-wise reader *)
+  Theorem program_pure_correct cap bs sched o files :
+    (0 < bs)%N -> domain O o files -> gate_passed O bs o files ->
+    complete O cap o files sched ->
+    program_pure O cap bs sched o files = POk (program_spec O o files).
+  Proof.
+    intros H (SP & F) G C.
+    destruct (workers_pure_correct bs o files H SP F G 0%nat) as (EC & W & S).
+    unfold program_pure. rewrite W. apply finish_correct; assumption.
+  Qed.
+
+  (* the caches are not observable: the two models agree *)
+  Corollary program_caches_unobservable cap bs rps sched o files :
+    (0 < bs)%N -> domain O o files -> gate_passed O bs o files ->
+    complete O cap o files sched ->
+    program_m O cap bs rps sched o files = program_pure O cap bs sched o files.
+  Proof. intros. rewrite program_correct, program_pure_correct by assumption. reflexivity. Qed.
 End Main.
 
 
@@ -1631,11 +2603,12 @@ Section Spec.
 
   (* the spec events and the domain depend on the options only through the window *)
   Lemma spec_events_window o1 o2 files : op_after o1 = op_after o2 -> op_before o1 = op_before o2 ->
+    op_jout o1 = op_jout o2 -> op_jenv o1 = op_jenv o2 ->
     spec_events O o1 files = spec_events O o2 files.
   Proof.
-    intros A B. unfold spec_events, spec_sources. f_equal. f_equal. generalize 0%nat.
+    intros A B J E. unfold spec_events, spec_sources. f_equal. f_equal. generalize 0%nat.
     induction files as [|pf files IH]; intro i; [reflexivity|].
-    cbn [spec_sources_from]. rewrite IH. unfold spec_file_events, spec_out. rewrite A, B. reflexivity.
+    cbn [spec_sources_from]. rewrite IH. unfold spec_file_events, spec_out, journal_spec. rewrite A, B, J, E. reflexivity.
   Qed.
 
   Lemma domain_undecorated o files : domain O o files -> domain O (undecorated_opts o) files.
@@ -1663,7 +2636,7 @@ Section Spec.
     intro D. cbv zeta. rewrite (spec_is_run o files D), (spec_is_run _ files (domain_undecorated o files D)). cbn [fst].
     assert (OK : Forall SummaryProofs.ev_ok (spec_events O o files)).
     { eapply sim_ev_ok. apply spec_events_sim. exact D. }
-    rewrite (spec_events_window (undecorated_opts o) o files eq_refl eq_refl).
+    rewrite (spec_events_window (undecorated_opts o) o files eq_refl eq_refl eq_refl eq_refl).
     change (op_cli (undecorated_opts o)) with (undecorated (op_cli o)).
     rewrite undecorated_payload by exact OK.
     apply SummaryProofs.strip_run. exact OK.
@@ -1682,20 +2655,20 @@ Section Corollaries.
   Variable O : oracles.
 
   (* C12 at program level: the WHOLE output (stdout and totals) is the same at every block size
-     at which stage 1 accepts the text files (record files, event logs and journals are not read
+     at which stage 1 accepts the text files, whatever the readers cached and dropped (record files, event logs and journals are not read
      through the block reader's line model: no block size applies to them here) *)
-  Theorem program_bs_independent cap bs1 bs2 sched o files :
+  Theorem program_bs_independent cap bs1 bs2 rps1 rps2 sched o files :
     (0 < bs1)%N -> (0 < bs2)%N -> domain O o files ->
-    gate_passed O bs1 files -> gate_passed O bs2 files ->
+    gate_passed O bs1 o files -> gate_passed O bs2 o files ->
     complete O cap o files sched ->
-    program_m O cap bs1 sched o files = program_m O cap bs2 sched o files.
+    program_m O cap bs1 rps1 sched o files = program_m O cap bs2 rps2 sched o files.
   Proof. intros. rewrite !program_correct by assumption. reflexivity. Qed.
 
   (* C06 at program level: every complete schedule gives the same stdout and totals *)
-  Theorem program_schedule_independent cap bs sched1 sched2 o files :
-    (0 < bs)%N -> domain O o files -> gate_passed O bs files ->
+  Theorem program_schedule_independent cap bs rps sched1 sched2 o files :
+    (0 < bs)%N -> domain O o files -> gate_passed O bs o files ->
     complete O cap o files sched1 -> complete O cap o files sched2 ->
-    program_m O cap bs sched1 o files = program_m O cap bs sched2 o files.
+    program_m O cap bs rps sched1 o files = program_m O cap bs rps sched2 o files.
   Proof. intros. rewrite !program_correct by assumption. reflexivity. Qed.
 
   (* complete schedules exist for every input, and every maximal execution is one *)
@@ -1719,11 +2692,11 @@ Section Corollaries.
   (* hence: under EVERY maximal execution of the coordinator (any interleaving of the workers'
      sends and the coordinator's receives and prints, no fairness assumption) the whole program
      prints the specification *)
-  Theorem program_correct_maximal cap bs sched s' o files :
-    (1 <= cap)%nat -> (0 < bs)%N -> domain O o files -> gate_passed O bs files ->
+  Theorem program_correct_maximal cap bs rps sched s' o files :
+    (1 <= cap)%nat -> (0 < bs)%N -> domain O o files -> gate_passed O bs o files ->
     Coord.run cap (Coord.init (tags_of (spec_sources O o files))) sched = Some s' ->
     (forall e, Coord.step cap s' e = None) ->
-    program_m O cap bs sched o files = POk (program_spec O o files).
+    program_m O cap bs rps sched o files = POk (program_spec O o files).
   Proof.
     intros Hc H D G R M. apply program_correct; try assumption.
     eapply maximal_schedule_complete; eassumption.
@@ -1731,10 +2704,10 @@ Section Corollaries.
 
   (* the code-level output under ANY block size and ANY complete schedule satisfies the C19 and
      C13 identities *)
-  Theorem program_m_totals cap bs sched o files out tot :
-    (0 < bs)%N -> domain O o files -> gate_passed O bs files ->
+  Theorem program_m_totals cap bs rps sched o files out tot :
+    (0 < bs)%N -> domain O o files -> gate_passed O bs o files ->
     complete O cap o files sched ->
-    program_m O cap bs sched o files = POk (out, tot) ->
+    program_m O cap bs rps sched o files = POk (out, tot) ->
     Summary.c_summary (op_cli o) = true ->
     let evs := spec_events O o files in
     Summary.u_bytes tot = Print.blen (Print.payload out) /\
@@ -1749,19 +2722,19 @@ Section Corollaries.
     cbv zeta. repeat split; assumption.
   Qed.
 
-  Theorem program_m_strip cap bs sched sched0 o files out tot out0 tot0 :
-    (0 < bs)%N -> domain O o files -> gate_passed O bs files ->
+  Theorem program_m_strip cap bs rps rps0 sched sched0 o files out tot out0 tot0 :
+    (0 < bs)%N -> domain O o files -> gate_passed O bs o files ->
     complete O cap o files sched ->
     complete O cap (undecorated_opts o) files sched0 ->
-    program_m O cap bs sched o files = POk (out, tot) ->
-    program_m O cap bs sched0 (undecorated_opts o) files = POk (out0, tot0) ->
+    program_m O cap bs rps sched o files = POk (out, tot) ->
+    program_m O cap bs rps0 sched0 (undecorated_opts o) files = POk (out0, tot0) ->
     let c := op_cli o in
     let evs := spec_events O o files in
     Print.strip_msgs (Summary.shape_of c (Summary.popt_of c (sources_of files) evs) evs) (Print.payload out)
     = Some (Print.payload out0).
   Proof.
     intros H D G C C0 E E0. rewrite program_correct in E by assumption.
-    rewrite (program_correct O cap bs sched0 (undecorated_opts o) files H (domain_undecorated O o files D) G C0) in E0.
+    rewrite (program_correct O cap bs rps0 sched0 (undecorated_opts o) files H (domain_undecorated O o files D) G C0) in E0.
     assert (E' : program_spec O o files = (out, tot)) by congruence.
     assert (E0' : program_spec O (undecorated_opts o) files = (out0, tot0)) by congruence.
     clear E E0.
@@ -1794,130 +2767,4 @@ Proof.
   - eapply sim_ev_ok. apply spec_events_sim. exact D.
 Qed.
 
-
-(* ######################################################################## part 10: year-less text logs (C11) *)
-(* "the datetime window and the cross-file merge use the inferred dates": the spec groups of a
-   year-less file under the derived oracle [yl_dated] are the groups found with "a year-less
-   pattern matches the line", and their instants are, message by message, the ones
-   Year.assign_years (process_missing_year, C11) infers — provided equal head lines do not occur
-   twice (the oracle is a function of the line's bytes). *)
-
-(* the instant of a group is what the oracle says of its head line; grouping depends only on WHICH
-   lines are dated *)
-Lemma groups_heads d ls : Forall (fun g : group => d (hd [] (snd g)) = Some (fst g)) (snd (groups d ls)).
-Proof.
-  induction ls as [|l r IH]; [constructor|]. rewrite SyslinesProofs.groups_cons.
-  destruct (d l) eqn:D; cbn [snd]; [|exact IH]. constructor; [exact D|exact IH].
-Qed.
-
-Lemma groups_same_lines d1 d2 ls : (forall l, In l ls -> (d1 l = None <-> d2 l = None)) ->
-  fst (groups d1 ls) = fst (groups d2 ls) /\ map snd (snd (groups d1 ls)) = map snd (snd (groups d2 ls)).
-Proof.
-  induction ls as [|l r IH]; intro H; [split; reflexivity|].
-  destruct IH as [I1 I2]; [intros x Hx; apply H; right; exact Hx|].
-  rewrite !SyslinesProofs.groups_cons. pose proof (H l (or_introl eq_refl)) as HL.
-  destruct (d1 l) eqn:D1; destruct (d2 l) eqn:D2; cbn [fst snd map].
-  - rewrite I1, I2. split; reflexivity.
-  - exfalso. destruct HL as [_ HL]. specialize (HL eq_refl). discriminate.
-  - exfalso. destruct HL as [HL _]. specialize (HL eq_refl). discriminate.
-  - rewrite I1, I2. split; reflexivity.
-Qed.
-
-Lemma assoc_combine_nth (ks : list bytes) : NoDup ks -> forall (vs : list Z) k (d : bytes),
-  (k < length ks)%nat -> length vs = length ks ->
-  assoc (nth k ks d) (combine ks vs) = Some (nth k vs 0%Z).
-Proof.
-  induction 1 as [|x ks NI ND IH]; intros vs k d L E; [cbn in L; lia|].
-  destruct vs as [|v vs]; [discriminate|]. cbn [combine assoc]. destruct k as [|k].
-  - cbn [nth]. rewrite beqb_refl. reflexivity.
-  - cbn [nth]. destruct (beqb (nth k ks d) x) eqn:B.
-    + exfalso. apply beqb_eq in B. apply NI. rewrite <- B. apply nth_In. cbn in L. lia.
-    + apply IH; cbn in L, E; lia.
-Qed.
-
-Section Yearless.
-  Variable O : oracles.
-
-  Lemma heads_dated (f : file) : Forall (fun h => o_ydate O h <> None) (yl_heads O f).
-  Proof.
-    unfold yl_heads. apply Forall_map. pose proof (groups_heads (ydated0 O) (lines f)) as H.
-    unfold syslines. eapply Forall_impl; [|exact H]. intros g E. unfold ydated0 in E.
-    destruct (o_ydate O (hd [] (snd g))); [discriminate|discriminate].
-  Qed.
-
-  Lemma yl_msgs_length (f : file) : length (yl_msgs O f) = length (yl_heads O f).
-  Proof.
-    unfold yl_msgs. pose proof (heads_dated f) as H. induction H as [|h r Hh _ IH]; [reflexivity|].
-    cbn [flat_map]. destruct (o_ydate O h); [|congruence]. cbn. rewrite IH. reflexivity.
-  Qed.
-
-  Theorem yearless_instants off mtime (f : file) ys :
-    Year.assign_years 2 off (Year.year_of_seconds off mtime) (yl_msgs O f) = Some ys ->
-    NoDup (yl_heads O f) ->
-    yl_table O off mtime f = Some (combine (yl_heads O f) (map snd ys)) /\
-    map snd (syslines (yl_dated O (combine (yl_heads O f) (map snd ys))) f) = map snd (syslines (ydated0 O) f) /\
-    map fst (syslines (yl_dated O (combine (yl_heads O f) (map snd ys))) f) = map snd ys.
-  Proof.
-    intros AY ND. set (tab := combine (yl_heads O f) (map snd ys)).
-    assert (LEN : length (map snd ys) = length (yl_heads O f)).
-    { rewrite map_length, <- yl_msgs_length. unfold Year.assign_years in AY.
-      destruct (Year.walk 2 off (Year.year_of_seconds off mtime) None (rev (yl_msgs O f))) as [l|] eqn:W; [|discriminate].
-      cbn in AY. inversion AY; subst. rewrite rev_length, (YearProofs.walk_length _ _ _ _ _ _ W), rev_length. reflexivity. }
-    split; [unfold yl_table; rewrite AY; reflexivity|].
-    (* every line a year-less pattern matches is a head, hence in the table *)
-    assert (INH : forall l, In l (lines f) -> o_ydate O l <> None -> In l (yl_heads O f)).
-    { intros l. unfold yl_heads, syslines. generalize (lines f) as ls. induction ls as [|x r IH]; intros I D; [destruct I|].
-      rewrite SyslinesProofs.groups_cons. unfold ydated0 at 1.
-      destruct I as [<-|I].
-      - destruct (o_ydate O x); [|congruence]. cbn. left. reflexivity.
-      - destruct (o_ydate O x); cbn [option_map snd map]; [right|]; apply IH; assumption. }
-    assert (TAB : forall k, (k < length (yl_heads O f))%nat ->
-                  yl_dated O tab (nth k (yl_heads O f) []) = Some (nth k (map snd ys) 0%Z)).
-    { intros k L. unfold yl_dated. pose proof (heads_dated f) as HD. rewrite Forall_forall in HD.
-      destruct (o_ydate O (nth k (yl_heads O f) [])) eqn:D; [|exfalso; eapply HD; [apply nth_In; exact L|exact D]].
-      apply assoc_combine_nth; assumption. }
-    assert (SAME : forall l, In l (lines f) -> (yl_dated O tab l = None <-> ydated0 O l = None)).
-    { intros l I. unfold ydated0. split.
-      - intro E. destruct (o_ydate O l) eqn:D; [|reflexivity]. exfalso.
-        assert (IH : In l (yl_heads O f)) by (apply INH; [exact I|congruence]).
-        destruct (In_nth _ _ [] IH) as (k & L & EK). rewrite <- EK in E. rewrite (TAB k L) in E. discriminate.
-      - unfold yl_dated. destruct (o_ydate O l); [discriminate|reflexivity]. }
-    destruct (groups_same_lines (yl_dated O tab) (ydated0 O) (lines f) SAME) as [_ G2].
-    split; [exact G2|].
-    (* instants: group k's head is head k *)
-    pose proof (groups_heads (yl_dated O tab) (lines f)) as GH. fold (syslines (yl_dated O tab) f) in GH.
-    assert (HE : map (fun g : group => hd [] (snd g)) (syslines (yl_dated O tab) f) = yl_heads O f).
-    { assert (MM : forall l : list group, map (fun g : group => hd ([] : list N) (snd g)) l
-                                          = map (@hd (list N) []) (map (@snd Z (list (list N))) l))
-        by (intro l; rewrite map_map; reflexivity).
-      unfold yl_heads. rewrite !MM. unfold syslines. rewrite G2. reflexivity. }
-    apply (nth_ext _ _ 0%Z 0%Z).
-    - rewrite map_length, LEN, <- HE, map_length. reflexivity.
-    - intros k L. rewrite map_length in L.
-      assert (LK : (k < length (yl_heads O f))%nat) by (rewrite <- HE, map_length; exact L).
-      rewrite Forall_forall in GH.
-      pose proof (GH (nth k (syslines (yl_dated O tab) f) (0%Z, [])) (nth_In _ _ L)) as E.
-      assert (HK : hd [] (snd (nth k (syslines (yl_dated O tab) f) (0%Z, []))) = nth k (yl_heads O f) []).
-      { rewrite <- HE. symmetry.
-        exact (map_nth (fun g : group => hd ([] : list N) (snd g)) (syslines (yl_dated O tab) f) (0%Z, []) k). }
-      rewrite HK, (TAB k LK) in E. inversion E as [E1].
-      rewrite E1. exact (map_nth (@fst Z (list (list N))) (syslines (yl_dated O tab) f) (0%Z, []) k).
-  Qed.
-
-  (* with C11's theorem 5: when the true (year, message) sequence of the file satisfies C11's gap
-     hypothesis and the modification time lies in the last message's year, the instants the
-     window and the merge use are the TRUE instants *)
-  Corollary yearless_true_instants off mtime (f : file) (tm : list (Z * Year.ymsg)) :
-    YearProofs.seq_ok off tm -> map snd tm = yl_msgs O f ->
-    Year.year_of_seconds off mtime = fst (last tm (0%Z, Year.mkMsg 0 0 0)) ->
-    NoDup (yl_heads O f) ->
-    exists tab, yl_table O off mtime f = Some tab /\
-      map fst (syslines (yl_dated O tab) f) = map (YearProofs.instant_of off) tm.
-  Proof.
-    intros SQ MS YR ND.
-    pose proof (YearProofs.assign_true_years_lemma off tm SQ) as AY. rewrite <- YR, MS in AY.
-    destruct (yearless_instants off mtime f _ AY ND) as (T & _ & I).
-    eexists. split; [exact T|]. rewrite I, map_map. reflexivity.
-  Qed.
-End Yearless.
 
